@@ -77,61 +77,106 @@ Section Spec.
       + split; [exact Hf|]. split; [exact Hback|discriminate].
   Qed.
 
-  (* k further attempts on y: no violation, only y touched *)
-  Lemma attempts_spec fuel k : forall t y q, iI F t -> ivalid F t y ->
-    frame t (fst (attempts sub fuel k t y q)) (eq y) /\
-    (forall z, ivalid F (fst (attempts sub fuel k t y q)) z -> ivalid F t z).
+  (* the retry loop on y: no violation, only y touched *)
+  Lemma rloop_spec fuel dflt lay : forall rem t y q c, iI F t -> ivalid F t y ->
+    frame t (fst (rloop sub fuel dflt lay rem t y q c)) (eq y) /\
+    (forall z, ivalid F (fst (rloop sub fuel dflt lay rem t y q c)) z -> ivalid F t z).
   Proof.
-    induction k as [|k IH]; intros t y q HI Hv; cbn [attempts].
-    - cbn. split; [apply frame_refl; exact HI|auto].
-    - destruct (poll_until_spec fuel t y HI Hv) as (Hf & Hback & Hrdy).
+    induction rem as [|rem IH]; intros t y q c HI Hv.
+    - assert (Hstay : frame t t (eq y) /\ (forall z, ivalid F t z -> ivalid F t z))
+        by (split; [apply frame_refl; exact HI|auto]).
+      destruct c as [|e|]; cbn [rloop]; try exact Hstay.
+      destruct (retryable dflt e); cbn [fst]; exact Hstay.
+    - assert (Hstay : frame t t (eq y) /\ (forall z, ivalid F t z -> ivalid F t z))
+        by (split; [apply frame_refl; exact HI|auto]).
+      destruct c as [|e|]; cbn [rloop]; try exact Hstay.
+      destruct (retryable dflt e); cbn [fst]; [|exact Hstay].
+      destruct (poll_until_spec fuel t y HI Hv) as (Hf & Hback & Hrdy).
       destruct (poll_until sub fuel t y) as [t1 r] eqn:E. cbn [fst snd] in *.
       destruct r; cbn [fst snd]; try (split; [exact Hf|exact Hback]).
       pose proof Hf as (A1 & A2 & A3 & A4).
       destruct (sp_call Hs t1 y q A1 (A3 y Hv) (Hrdy eq_refl)) as (Hf2 & Hback2).
       destruct (sub t1 (OCall y q)) as [t2 a2] eqn:E2. cbn [fst snd] in *.
       pose proof Hf2 as (B1 & B2 & B3 & B4).
-      destruct (IH t2 y q B1 (B3 y (A3 y Hv))) as (Hf3 & Hback3).
-      assert (Hstop : frame t t2 (eq y) /\ (forall z, ivalid F t2 z -> ivalid F t z)).
-      { split; [eapply frame_trans; [exact Hf|exact Hf2]|].
-        intros z Hz. apply Hback, Hback2. exact Hz. }
-      assert (Hgo : frame t (fst (attempts sub fuel k t2 y q)) (eq y) /\
-                    (forall z, ivalid F (fst (attempts sub fuel k t2 y q)) z -> ivalid F t z)).
-      { split.
-        - eapply frame_trans; [exact Hf|]. eapply frame_trans; [exact Hf2|exact Hf3].
-        - intros z Hz. apply Hback, Hback2, Hback3. exact Hz. }
-      destruct a2 as [i|r'|[| |]]; cbn [fst snd]; first [exact Hgo|exact Hstop].
+      destruct (IH t2 y q (cres_of a2) B1 (B3 y (A3 y Hv))) as (Hf3 & Hback3).
+      split.
+      + eapply frame_trans; [exact Hf|]. eapply frame_trans; [exact Hf2|exact Hf3].
+      + intros z Hz. apply Hback, Hback2, Hback3. exact Hz.
   Qed.
 
-  (* k hedges on fresh clones of y0: no violation, no old instance touched *)
-  Lemma hedges_spec fuel k : forall t y0 q, iI F t -> ivalid F t y0 ->
-    iI F (hedges sub fuel k t y0 q) /\ iviol F (hedges sub fuel k t y0 q) = iviol F t /\
-    (forall z, ivalid F t z -> ivalid F (hedges sub fuel k t y0 q) z) /\
-    (forall z, ivalid F t z -> irdy F (hedges sub fuel k t y0 q) z = irdy F t z).
+  (* hedges on fresh clones of y0: no violation, no old instance touched *)
+  Definition untouched (t t' : T) : Prop :=
+    iI F t' /\ iviol F t' = iviol F t /\
+    (forall z, ivalid F t z -> ivalid F t' z) /\
+    (forall z, ivalid F t z -> irdy F t' z = irdy F t z).
+
+  Lemma untouched_refl t : iI F t -> untouched t t.
+  Proof. intros H. repeat split; auto. Qed.
+
+  (* one hedge attempt: clone y0, poll the clone, call it if ready *)
+  Lemma hedge_step fuel t y0 q : iI F t -> ivalid F t y0 ->
+    exists h t1, sub t (OClone y0) = (t1, AId h) /\
+      let t2 := fst (poll_until sub fuel t1 h) in
+      untouched t t2 /\ ivalid F t2 y0 /\
+      (snd (poll_until sub fuel t1 h) = RReady ->
+       untouched t (fst (sub t2 (OCall h q))) /\ ivalid F (fst (sub t2 (OCall h q))) y0).
   Proof.
-    induction k as [|k IH]; intros t y0 q HI Hv; cbn [hedges].
-    - repeat split; auto.
-    - destruct (sp_clone Hs t y0 HI Hv) as (Hf & h & Hh & Hfresh & Hhv & Hback).
-      destruct (sub t (OClone y0)) as [t1 a] eqn:E. cbn [fst snd] in *. subst a.
-      pose proof Hf as (A1 & A2 & A3 & A4).
-      destruct (poll_until_spec fuel t1 h A1 Hhv) as (Hf2 & Hback2 & Hrdy).
-      destruct (poll_until sub fuel t1 h) as [t2 r] eqn:E2. cbn [fst snd] in *.
-      pose proof Hf2 as (B1 & B2 & B3 & B4).
-      assert (Hold : forall z, ivalid F t z -> z <> h) by (intros z Hz ->; contradiction).
-      destruct r.
-      + destruct (sp_call Hs t2 h q B1 (B3 h Hhv) (Hrdy eq_refl)) as (Hf3 & Hback3).
-        destruct (sub t2 (OCall h q)) as [t3 a3] eqn:E3. cbn [fst snd] in *.
-        pose proof Hf3 as (C1 & C2 & C3 & C4).
-        destruct (IH t3 y0 q C1 (C3 y0 (B3 y0 (A3 y0 Hv)))) as (D1 & D2 & D3 & D4).
-        repeat split; auto; try congruence.
-        intros z Hz. rewrite D4 by auto. rewrite C4; [|auto|intros <-; eapply Hold; eauto].
-        rewrite B4; [|auto|intros <-; eapply Hold; eauto]. apply A4; auto.
-      + destruct (IH t2 y0 q B1 (B3 y0 (A3 y0 Hv))) as (D1 & D2 & D3 & D4).
-        repeat split; auto; try congruence.
-        intros z Hz. rewrite D4 by auto. rewrite B4; [|auto|intros <-; eapply Hold; eauto]. apply A4; auto.
-      + destruct (IH t2 y0 q B1 (B3 y0 (A3 y0 Hv))) as (D1 & D2 & D3 & D4).
-        repeat split; auto; try congruence.
-        intros z Hz. rewrite D4 by auto. rewrite B4; [|auto|intros <-; eapply Hold; eauto]. apply A4; auto.
+    intros HI Hv.
+    destruct (sp_clone Hs t y0 HI Hv) as (Hf & h & Hh & Hfresh & Hhv & Hback).
+    destruct (sub t (OClone y0)) as [t1 a] eqn:E. cbn [fst snd] in *. subst a.
+    exists h, t1. split; [reflexivity|].
+    pose proof Hf as (A1 & A2 & A3 & A4).
+    destruct (poll_until_spec fuel t1 h A1 Hhv) as (Hf2 & Hback2 & Hrdy).
+    destruct (poll_until sub fuel t1 h) as [t2 r] eqn:E2. cbn [fst snd] in *.
+    pose proof Hf2 as (B1 & B2 & B3 & B4).
+    assert (Hold : forall z, ivalid F t z -> z <> h) by (intros z Hz ->; contradiction).
+    assert (U2 : untouched t t2).
+    { repeat split; auto; try congruence.
+      intros z Hz. rewrite B4; [|auto|intros <-; eapply Hold; eauto]. apply A4; auto. }
+    split; [exact U2|]. split; [auto|].
+    intros ->.
+    destruct (sp_call Hs t2 h q B1 (B3 h Hhv) (Hrdy eq_refl)) as (Hf3 & Hback3).
+    destruct (sub t2 (OCall h q)) as [t3 a3] eqn:E3. cbn [fst snd] in *.
+    pose proof Hf3 as (C1 & C2 & C3 & C4).
+    split; [|auto].
+    repeat split; auto; try congruence.
+    intros z Hz. rewrite C4; [|auto|intros <-; eapply Hold; eauto].
+    rewrite B4; [|auto|intros <-; eapply Hold; eauto]. apply A4; auto.
+  Qed.
+
+  Lemma untouched_trans t1 t2 t3 : untouched t1 t2 -> untouched t2 t3 -> untouched t1 t3.
+  Proof.
+    intros (A1 & A2 & A3 & A4) (B1 & B2 & B3 & B4). repeat split; auto; try congruence.
+    intros z Hz. rewrite B4; auto.
+  Qed.
+
+  Lemma hedges_spec fuel k : forall t y0 q ok, iI F t -> ivalid F t y0 ->
+    untouched t (fst (hedges sub fuel k t y0 q ok)).
+  Proof.
+    induction k as [|k IH]; intros t y0 q ok HI Hv; cbn [hedges]; [apply untouched_refl; exact HI|].
+    destruct (hedge_step fuel t y0 q HI Hv) as (h & t1 & E & U2 & V2 & Hcall). rewrite E.
+    destruct (poll_until sub fuel t1 h) as [t2 r] eqn:E2. cbn [fst snd] in *.
+    destruct r.
+    - destruct (Hcall eq_refl) as [U3 V3].
+      destruct (sub t2 (OCall h q)) as [t3 a3]. cbn [fst] in *.
+      eapply untouched_trans; [exact U3|]. apply IH; [apply U3|exact V3].
+    - eapply untouched_trans; [exact U2|]. apply IH; [apply U2|exact V2].
+    - eapply untouched_trans; [exact U2|]. apply IH; [apply U2|exact V2].
+  Qed.
+
+  Lemma hseq_spec fuel k : forall t y0 q, iI F t -> ivalid F t y0 ->
+    untouched t (fst (hseq sub fuel k t y0 q)).
+  Proof.
+    induction k as [|k IH]; intros t y0 q HI Hv; cbn [hseq]; [apply untouched_refl; exact HI|].
+    destruct (hedge_step fuel t y0 q HI Hv) as (h & t1 & E & U2 & V2 & Hcall). rewrite E.
+    destruct (poll_until sub fuel t1 h) as [t2 r] eqn:E2. cbn [fst snd] in *.
+    destruct r.
+    - destruct (Hcall eq_refl) as [U3 V3].
+      destruct (sub t2 (OCall h q)) as [t3 a3]. cbn [fst] in *.
+      destruct (is_ok (cres_of a3)); cbn [fst]; [exact U3|].
+      eapply untouched_trans; [exact U3|]. apply IH; [apply U3|exact V3].
+    - eapply untouched_trans; [exact U2|]. apply IH; [apply U2|exact V2].
+    - eapply untouched_trans; [exact U2|]. apply IH; [apply U2|exact V2].
   Qed.
 End Spec.
 Arguments sp_poll {T sub F}.
@@ -143,7 +188,7 @@ Arguments sp_clone {T sub F}.
 (* the wrapped service satisfies the interface *)
 Fixpoint bad_calls (l : list lev) : nat :=
   match l with
-  | LCall _ _ false :: r => S (bad_calls r)
+  | LCall _ _ false _ :: r => S (bad_calls r)
   | _ :: r => bad_calls r
   | [] => O
   end.
@@ -273,7 +318,7 @@ Section Layer.
       cbn in HI, Hval, Hinj, Hx, Hr. unfold lsub. cbn [fst snd layer_exec].
       set (y := imap l x) in *.
       assert (Hy : ivalid F t y) by (apply Hval; exact Hx).
-      destruct d as [| |k|k|k].
+      destruct d as [| |k df|k|k|k df].
       + (* Swap *)
         destruct (swap_prefix t y q HI Hy Hr) as (y' & t1 & t2 & a2 & E1 & E2 & P1 & P2 & P3 & P4 & P5 & P6 & P7).
         rewrite E1, E2. cbn [fst snd].
@@ -286,13 +331,8 @@ Section Layer.
       + (* Retry k *)
         destruct (swap_prefix t y q HI Hy Hr) as (y' & t1 & t2 & a2 & E1 & E2 & P1 & P2 & P3 & P4 & P5 & P6 & P7).
         rewrite E1, E2.
-        assert (Hstop : frame layer_iface (l, t) (mkL (updn (imap l) x y') (lfresh l), t2) (eq x) /\
-                        (forall z, ivalid layer_iface (mkL (updn (imap l) x y') (lfresh l), t2) z ->
-                                   ivalid layer_iface (l, t) z)).
-        { apply layer_frame; auto. right. exists y'. auto. }
-        destruct (cres_of a2); [|exact Hstop|exact Hstop].
-        destruct (attempts_spec sub F Hs fuel k t2 y q P1 (P3 y Hy)) as (Hf & Hback).
-        destruct (attempts sub fuel k t2 y q) as [t3 e] eqn:E3. cbn [fst snd] in *.
+        destruct (rloop_spec sub F Hs fuel df false k t2 y q (cres_of a2) P1 (P3 y Hy)) as (Hf & Hback).
+        destruct (rloop sub fuel df false k t2 y q (cres_of a2)) as [t3 e] eqn:E3. cbn [fst snd] in *.
         destruct Hf as (A1 & A2 & A3 & A4).
         apply layer_frame; auto; try congruence.
         * intros z Hz Hne. rewrite A4; auto.
@@ -300,8 +340,18 @@ Section Layer.
       + (* Hedge k *)
         destruct (swap_prefix t y q HI Hy Hr) as (y' & t1 & t2 & a2 & E1 & E2 & P1 & P2 & P3 & P4 & P5 & P6 & P7).
         rewrite E1, E2.
-        destruct (hedges_spec sub F Hs fuel k t2 y' q P1 P4) as (D1 & D2 & D3 & D4).
-        cbn [fst snd].
+        destruct (hedges_spec sub F Hs fuel k t2 y' q (is_ok (cres_of a2)) P1 P4) as (D1 & D2 & D3 & D4).
+        destruct (hedges sub fuel k t2 y' q (is_ok (cres_of a2))) as [t3 ok]. cbn [fst snd] in *.
+        apply layer_frame; auto; try congruence.
+        * intros z Hz Hne. rewrite D4; auto.
+        * right. exists y'. auto.
+      + (* HedgeSeq k *)
+        destruct (swap_prefix t y q HI Hy Hr) as (y' & t1 & t2 & a2 & E1 & E2 & P1 & P2 & P3 & P4 & P5 & P6 & P7).
+        rewrite E1, E2.
+        destruct (is_ok (cres_of a2)).
+        { cbn [fst snd]. apply layer_frame; auto. right. exists y'. auto. }
+        destruct (hseq_spec sub F Hs fuel k t2 y' q P1 P4) as (D1 & D2 & D3 & D4).
+        destruct (hseq sub fuel k t2 y' q) as [t3 ok]. cbn [fst snd] in *.
         apply layer_frame; auto; try congruence.
         * intros z Hz Hne. rewrite D4; auto.
         * right. exists y'. auto.
@@ -312,13 +362,8 @@ Section Layer.
         destruct (sp_clone Hs t1 y A1 (A3 y Hy)) as (Hf2 & z & Hz & Hzfresh & Hzv & Hback2).
         destruct (sub t1 (OClone y)) as [t2 a'] eqn:E2. cbn [fst snd] in *. subst a'.
         pose proof Hf2 as (B1 & B2 & B3 & B4).
-        assert (Hstop : frame layer_iface (l, t) (l, t2) (eq x) /\
-                        (forall w, ivalid layer_iface (l, t2) w -> ivalid layer_iface (l, t) w)).
-        { apply layer_frame; auto; try congruence.
-          intros w Hw Hne. rewrite B4; auto. }
-        destruct (cres_of a); [|exact Hstop|exact Hstop].
-        destruct (attempts_spec sub F Hs fuel k t2 z q B1 Hzv) as (Hf3 & Hback3).
-        destruct (attempts sub fuel k t2 z q) as [t3 e] eqn:E3. cbn [fst snd] in *.
+        destruct (rloop_spec sub F Hs fuel df true (S k) t2 z q (cres_of a) B1 Hzv) as (Hf3 & Hback3).
+        destruct (rloop sub fuel df true (S k) t2 z q (cres_of a)) as [t3 e] eqn:E3. cbn [fst snd] in *.
         destruct Hf3 as (C1 & C2 & C3 & C4).
         apply layer_frame; auto; try congruence.
         intros w Hw Hne. rewrite C4; auto.
@@ -420,10 +465,14 @@ Proof.
     + intros x y Hx Hy _. lia.
 Qed.
 
+Lemma init_base_f_ok orc kf am : base_ok (init_base_f orc kf am).
+Proof. split; cbn; [reflexivity|lia]. Qed.
+Lemma init_base_pf_ok po kf am : base_ok (init_base_pf po kf am).
+Proof. split; cbn; [reflexivity|lia]. Qed.
 Lemma init_base_ok orc : base_ok (init_base orc).
-Proof. split; cbn; [reflexivity|lia]. Qed.
+Proof. apply init_base_f_ok. Qed.
 Lemma init_base_p_ok po : base_ok (init_base_p po).
-Proof. split; cbn; [reflexivity|lia]. Qed.
+Proof. apply init_base_pf_ok. Qed.
 
 Lemma client_cons cf fuel ds t q rest :
   client cf fuel ds t (q :: rest) =
@@ -465,7 +514,7 @@ Proof.
 Qed.
 
 Definition all_calls_ready (l : list lev) : Prop :=
-  Forall (fun e => match e with LCall _ _ ok => ok = true | _ => True end) l.
+  Forall (fun e => match e with LCall _ _ ok _ => ok = true | _ => True end) l.
 
 Lemma bad_calls_zero l : bad_calls l = 0 -> all_calls_ready l.
 Proof.
@@ -623,23 +672,31 @@ Fixpoint nerrs (l : list lev) : nat :=
 
 Fixpoint ncalls (q : Z) (l : list lev) : nat :=
   match l with
-  | LCall _ q' _ :: r => (if Z.eqb q' q then 1 else 0) + ncalls q r
+  | LCall _ q' _ _ :: r => (if Z.eqb q' q then 1 else 0) + ncalls q r
   | _ :: r => ncalls q r
   | [] => O
   end.
 
 Definition is_err (r : rres) : nat := match r with RErr => 1 | _ => 0 end.
-Definition is_crdy (c : cres) : nat := match c with CRdy => 1 | _ => 0 end.
-Definition no_hedge (d : disc) : Prop := match d with Hedge _ => False | _ => True end.
+Definition is_crdy (c : cres) : nat := match c with CErr KReady => 1 | _ => 0 end.
+Definition no_hedge (d : disc) : Prop := match d with Hedge _ | HedgeSeq _ => False | _ => True end.
 Definition plain_disc (d : disc) : Prop := match d with Swap | Direct => True | _ => False end.
+(* the layer retries with the crate's default predicate: it cannot tell a lower layer's readiness
+   error from a call error and retries it *)
+Definition is_dflt (d : disc) : bool :=
+  match d with Retry _ true | Reconnect _ true => true | _ => false end.
+(* calls through the layer never END with a readiness error given that calls below never do *)
+Definition keeps_nr (d : disc) (nr : bool) : bool :=
+  match d with Swap | Direct => nr | Hedge _ | HedgeSeq _ => true | _ => false end.
 
 Section Counting.
   Context {T : Type} (sub : T -> op -> T * ans).
   (* ne: readiness errors returned so far; nc q: calls for request q so far *)
   Context (ne : T -> nat) (nc : Z -> T -> nat).
 
-  (* [plain]: below, every request is forwarded exactly once (no retrying / hedging layer) *)
-  Record cspec (hedgefree plain : bool) : Prop := {
+  (* [exact]: every readiness error ends exactly one call; [plain]: every request is forwarded
+     exactly once; [nr]: no call ends with a readiness error *)
+  Record cspec (exact plain nr : bool) : Prop := {
     cs_poll : forall t x, exists r, snd (sub t (OPoll x)) = ARes r /\
       (ne (fst (sub t (OPoll x))) = ne t + is_err r) /\
       (forall q, nc q (fst (sub t (OPoll x))) = nc q t);
@@ -647,14 +704,15 @@ Section Counting.
       ne (fst (sub t (OClone x))) = ne t /\
       (forall q, nc q (fst (sub t (OClone x))) = nc q t);
     cs_call : forall t x q, exists c, snd (sub t (OCall x q)) = ADone c /\
-      (hedgefree = true -> ne (fst (sub t (OCall x q))) = ne t + is_crdy c) /\
-      ne t <= ne (fst (sub t (OCall x q))) /\
+      (exact = true -> ne (fst (sub t (OCall x q))) = ne t + is_crdy c) /\
+      ne t + is_crdy c <= ne (fst (sub t (OCall x q))) /\
       nc q t + 1 <= nc q (fst (sub t (OCall x q))) /\
       (plain = true -> nc q (fst (sub t (OCall x q))) = nc q t + 1) /\
-      (forall q', q' <> q -> nc q' (fst (sub t (OCall x q))) = nc q' t)
+      (forall q', q' <> q -> nc q' (fst (sub t (OCall x q))) = nc q' t) /\
+      (nr = true -> c <> CErr KReady)
   }.
 
-  Context (hf pl : bool) (Hc : cspec hf pl).
+  Context (hf pl nr : bool) (Hc : cspec hf pl nr).
 
   Lemma poll_until_count fuel : forall t y,
     ne (fst (poll_until sub fuel t y)) = ne t + is_err (snd (poll_until sub fuel t y)) /\
@@ -662,53 +720,104 @@ Section Counting.
   Proof.
     induction fuel as [|f IH]; intros t y; cbn [poll_until].
     - cbn. split; [lia|auto].
-    - destruct (cs_poll _ _ Hc t y) as (r & Hr & He & Hn).
+    - destruct (cs_poll _ _ _ Hc t y) as (r & Hr & He & Hn).
       destruct (sub t (OPoll y)) as [t1 a] eqn:E. cbn [fst snd] in *. subst a.
       destruct r; cbn [fst snd is_err] in *; try (split; [lia|exact Hn]).
       destruct (IH t1 y) as [I1 I2]. split; [lia|]. intros q. rewrite I2. apply Hn.
   Qed.
 
-  Lemma attempts_count fuel k : forall t y q,
-    (hf = true -> ne (fst (attempts sub fuel k t y q)) = ne t + is_crdy (snd (attempts sub fuel k t y q))) /\
-    ne t <= ne (fst (attempts sub fuel k t y q)) /\
-    nc q t <= nc q (fst (attempts sub fuel k t y q)) /\
-    (forall q', q' <> q -> nc q' (fst (attempts sub fuel k t y q)) = nc q' t).
+  (* the retry loop: [c] (the result of the previous call) is already accounted for *)
+  Lemma rloop_count fuel dflt lay : forall rem t y q c,
+    let r := rloop sub fuel dflt lay rem t y q c in
+    ne t + is_crdy (snd r) <= ne (fst r) + is_crdy c /\
+    (hf = true -> (dflt = true -> nr = true) -> (dflt = true -> c <> CErr KReady) ->
+     ne (fst r) + is_crdy c = ne t + is_crdy (snd r)) /\
+    nc q t <= nc q (fst r) /\
+    (forall q', q' <> q -> nc q' (fst r) = nc q' t).
   Proof.
-    induction k as [|k IH]; intros t y q; cbn [attempts].
-    - cbn. repeat split; auto; lia.
-    - destruct (poll_until_count fuel t y) as [P1 P2].
-      destruct (poll_until sub fuel t y) as [t1 r] eqn:E. cbn [fst snd] in *.
-      destruct r; cbn [fst snd is_err is_crdy] in *;
-        try (repeat split; [intros; lia|lia|rewrite P2; lia|intros; apply P2]).
-      destruct (cs_call _ _ Hc t1 y q) as (c & Hcc & C1 & C2 & C3 & C4 & C5).
-      destruct (sub t1 (OCall y q)) as [t2 a] eqn:E2. cbn [fst snd] in *. subst a.
-      destruct (IH t2 y q) as (I1 & I2 & I3 & I4).
-      destruct c; cbn [fst snd is_crdy] in *.
-      + split; [intros H; rewrite (I1 H), (C1 H); cbn; lia|]. split; [lia|]. split; [rewrite <- (P2 q); lia|].
-        intros q' Hq. rewrite (I4 q' Hq), (C5 q' Hq). apply P2.
-      + split; [intros H; rewrite (C1 H); cbn; lia|]. split; [lia|]. split; [rewrite <- (P2 q); lia|].
-        intros q' Hq. rewrite (C5 q' Hq). apply P2.
-      + split; [intros H; rewrite (C1 H); cbn; lia|]. split; [lia|]. split; [rewrite <- (P2 q); lia|].
-        intros q' Hq. rewrite (C5 q' Hq). apply P2.
+    induction rem as [|rem IH]; intros t y q c; cbn zeta.
+    - assert (Hstay : ne t + is_crdy c <= ne t + is_crdy c /\
+                      (hf = true -> (dflt = true -> nr = true) -> (dflt = true -> c <> CErr KReady) ->
+                       ne t + is_crdy c = ne t + is_crdy c) /\ nc q t <= nc q t /\
+                      (forall q', q' <> q -> nc q' t = nc q' t)) by (repeat split; auto).
+      destruct c as [|e|]; cbn [rloop]; try exact Hstay.
+      destruct (retryable dflt e) eqn:Er; cbn [fst snd]; [|exact Hstay].
+      destruct lay; [|exact Hstay]. cbn [is_crdy].
+      split; [lia|]. split; [|split; auto].
+      intros _ Hd Hc0. destruct e; cbn [is_crdy]; try lia.
+      destruct dflt; [exfalso; apply Hc0; reflexivity|discriminate].
+    - assert (Hstay : ne t + is_crdy c <= ne t + is_crdy c /\
+                      (hf = true -> (dflt = true -> nr = true) -> (dflt = true -> c <> CErr KReady) ->
+                       ne t + is_crdy c = ne t + is_crdy c) /\ nc q t <= nc q t /\
+                      (forall q', q' <> q -> nc q' t = nc q' t)) by (repeat split; auto).
+      destruct c as [|e|]; cbn [rloop]; try exact Hstay.
+      destruct (retryable dflt e) eqn:Er; cbn [fst snd]; [|exact Hstay].
+      assert (He0 : (dflt = true -> CErr e <> CErr KReady) -> is_crdy (CErr e) = 0).
+      { intros Hc0. destruct e; cbn [is_crdy]; try reflexivity.
+        destruct dflt; [exfalso; apply Hc0; reflexivity|discriminate]. }
+      destruct (poll_until_count fuel t y) as [P1 P2].
+      destruct (poll_until sub fuel t y) as [t1 r] eqn:E. cbn [fst snd is_err] in *.
+      destruct r; cbn [fst snd is_crdy is_err] in *.
+      + destruct (cs_call _ _ _ Hc t1 y q) as (c2 & Hcc & C1 & C2 & C3 & C4 & C5 & C6).
+        destruct (sub t1 (OCall y q)) as [t2 a] eqn:E2. cbn [fst snd] in *. subst a. cbn [cres_of].
+        specialize (IH t2 y q c2). cbn zeta in IH. destruct IH as (I1 & I2 & I3 & I4).
+        split; [lia|]. split; [|split].
+        * intros H Hd Hc0. rewrite (He0 Hc0).
+          specialize (I2 H Hd (fun Hdt => C6 (Hd Hdt))). rewrite (C1 H) in I2. lia.
+        * rewrite <- (P2 q). lia.
+        * intros q' Hq. rewrite (I4 q' Hq), (C5 q' Hq). apply P2.
+      + split; [lia|]. split; [|split; [rewrite P2; lia|intros; apply P2]].
+        intros _ _ Hc0. rewrite (He0 Hc0). lia.
+      + split; [lia|]. split; [|split; [rewrite P2; lia|intros; apply P2]].
+        intros _ _ Hc0. rewrite (He0 Hc0). lia.
   Qed.
 
-  Lemma hedges_count fuel k : forall t y0 q,
-    ne t <= ne (hedges sub fuel k t y0 q) /\
-    nc q t <= nc q (hedges sub fuel k t y0 q) /\
-    (forall q', q' <> q -> nc q' (hedges sub fuel k t y0 q) = nc q' t).
+  (* one hedge attempt *)
+  Lemma hedges_count fuel k : forall t y0 q ok,
+    ne t <= ne (fst (hedges sub fuel k t y0 q ok)) /\
+    nc q t <= nc q (fst (hedges sub fuel k t y0 q ok)) /\
+    (forall q', q' <> q -> nc q' (fst (hedges sub fuel k t y0 q ok)) = nc q' t).
   Proof.
-    induction k as [|k IH]; intros t y0 q; cbn [hedges].
+    induction k as [|k IH]; intros t y0 q ok; cbn [hedges].
     - repeat split; auto.
-    - destruct (cs_clone _ _ Hc t y0) as ((h & Hh) & K1 & K2).
+    - destruct (cs_clone _ _ _ Hc t y0) as ((h & Hh) & K1 & K2).
       destruct (sub t (OClone y0)) as [t1 a] eqn:E. cbn [fst snd] in *. subst a.
       destruct (poll_until_count fuel t1 h) as [P1 P2].
       destruct (poll_until sub fuel t1 h) as [t2 r] eqn:E2. cbn [fst snd] in *.
       destruct r.
-      + destruct (cs_call _ _ Hc t2 h q) as (c & Hcc & C1 & C2 & C3 & C4 & C5).
+      + destruct (cs_call _ _ _ Hc t2 h q) as (c & Hcc & C1 & C2 & C3 & C4 & C5 & C6).
         destruct (sub t2 (OCall h q)) as [t3 a] eqn:E3. cbn [fst snd] in *.
-        destruct (IH t3 y0 q) as (I1 & I2 & I3).
+        destruct (IH t3 y0 q (ok || is_ok (cres_of a))) as (I1 & I2 & I3).
         split; [lia|]. split; [rewrite <- (K2 q), <- (P2 q); lia|].
         intros q' Hq. rewrite (I3 q' Hq), (C5 q' Hq), P2. apply K2.
+      + destruct (IH t2 y0 q ok) as (I1 & I2 & I3).
+        split; [lia|]. split; [rewrite <- (K2 q), <- (P2 q); lia|].
+        intros q' Hq. rewrite (I3 q' Hq), P2. apply K2.
+      + destruct (IH t2 y0 q ok) as (I1 & I2 & I3).
+        split; [lia|]. split; [rewrite <- (K2 q), <- (P2 q); lia|].
+        intros q' Hq. rewrite (I3 q' Hq), P2. apply K2.
+  Qed.
+
+  Lemma hseq_count fuel k : forall t y0 q,
+    ne t <= ne (fst (hseq sub fuel k t y0 q)) /\
+    nc q t <= nc q (fst (hseq sub fuel k t y0 q)) /\
+    (forall q', q' <> q -> nc q' (fst (hseq sub fuel k t y0 q)) = nc q' t).
+  Proof.
+    induction k as [|k IH]; intros t y0 q; cbn [hseq].
+    - repeat split; auto.
+    - destruct (cs_clone _ _ _ Hc t y0) as ((h & Hh) & K1 & K2).
+      destruct (sub t (OClone y0)) as [t1 a] eqn:E. cbn [fst snd] in *. subst a.
+      destruct (poll_until_count fuel t1 h) as [P1 P2].
+      destruct (poll_until sub fuel t1 h) as [t2 r] eqn:E2. cbn [fst snd] in *.
+      destruct r.
+      + destruct (cs_call _ _ _ Hc t2 h q) as (c & Hcc & C1 & C2 & C3 & C4 & C5 & C6).
+        destruct (sub t2 (OCall h q)) as [t3 a] eqn:E3. cbn [fst snd] in *.
+        destruct (IH t3 y0 q) as (I1 & I2 & I3).
+        destruct (is_ok (cres_of a)); cbn [fst].
+        * split; [lia|]. split; [rewrite <- (K2 q), <- (P2 q); lia|].
+          intros q' Hq. rewrite (C5 q' Hq), P2. apply K2.
+        * split; [lia|]. split; [rewrite <- (K2 q), <- (P2 q); lia|].
+          intros q' Hq. rewrite (I3 q' Hq), (C5 q' Hq), P2. apply K2.
       + destruct (IH t2 y0 q) as (I1 & I2 & I3).
         split; [lia|]. split; [rewrite <- (K2 q), <- (P2 q); lia|].
         intros q' Hq. rewrite (I3 q' Hq), P2. apply K2.
@@ -716,89 +825,108 @@ Section Counting.
         split; [lia|]. split; [rewrite <- (K2 q), <- (P2 q); lia|].
         intros q' Hq. rewrite (I3 q' Hq), P2. apply K2.
   Qed.
-
 End Counting.
+
+Lemma hedge_result_not_ready ok : hedge_result ok <> CErr KReady.
+Proof. destruct ok; discriminate. Qed.
+Lemma is_crdy_hedge ok : is_crdy (hedge_result ok) = 0.
+Proof. destruct ok; reflexivity. Qed.
 
 Section LayerCounting.
   Context {T : Type} (sub : T -> op -> T * ans) (ne : T -> nat) (nc : Z -> T -> nat).
-  Context (hf pl : bool) (Hc : cspec sub ne nc hf pl).
-  Context (fuel : nat) (d : disc).
-  Context (Hhf : hf = true -> no_hedge d) (Hpl : pl = true -> plain_disc d).
+  Context (hf pl nr : bool) (Hc : cspec sub ne nc hf pl nr).
+  Context (fuel : nat) (d : disc) (hf' : bool).
+  Context (Hhf : hf' = true -> hf = true /\ no_hedge d /\ (is_dflt d = true -> nr = true))
+          (Hpl : pl = true -> plain_disc d).
 
-  Lemma layer_cspec : cspec (lsub sub fuel d) (fun p => ne (snd p)) (fun q p => nc q (snd p)) hf pl.
+  Lemma layer_cspec :
+    cspec (lsub sub fuel d) (fun p => ne (snd p)) (fun q p => nc q (snd p)) hf' pl (keeps_nr d nr).
   Proof.
     constructor.
     - intros [l t] x. unfold lsub. cbn [fst snd layer_exec].
-      destruct (cs_poll _ _ _ _ _ Hc t (imap l x)) as (r & Hr & He & Hn).
+      destruct (cs_poll _ _ _ _ _ _ Hc t (imap l x)) as (r & Hr & He & Hn).
       destruct (sub t (OPoll (imap l x))) as [t1 a]. cbn [fst snd] in *. exists r. auto.
     - intros [l t] x. unfold lsub. cbn [fst snd layer_exec].
-      destruct (cs_clone _ _ _ _ _ Hc t (imap l x)) as ((y & Hy) & K1 & K2).
+      destruct (cs_clone _ _ _ _ _ _ Hc t (imap l x)) as ((y & Hy) & K1 & K2).
       destruct (sub t (OClone (imap l x))) as [t1 a]. cbn [fst snd] in *. subst a. cbn [fst snd].
       split; [eexists; reflexivity|auto].
     - intros [l t] x q. unfold lsub. cbn [fst snd layer_exec].
       set (y := imap l x).
-      destruct d as [| |k|k|k].
+      assert (Hnp : pl = true -> no_hedge d /\ is_dflt d = false /\ keeps_nr d nr = nr).
+      { intros H. apply Hpl in H. destruct d; cbn in *; try contradiction; auto. }
+      destruct d as [| |k df|k|k|k df].
       + (* Swap *)
-        destruct (cs_clone _ _ _ _ _ Hc t y) as ((y' & Hy) & K1 & K2).
+        destruct (cs_clone _ _ _ _ _ _ Hc t y) as ((y' & Hy) & K1 & K2).
         destruct (sub t (OClone y)) as [t1 a]. cbn [fst snd] in *. subst a.
-        destruct (cs_call _ _ _ _ _ Hc t1 y q) as (c & Hcc & C1 & C2 & C3 & C4 & C5).
+        destruct (cs_call _ _ _ _ _ _ Hc t1 y q) as (c & Hcc & C1 & C2 & C3 & C4 & C5 & C6).
         destruct (sub t1 (OCall y q)) as [t2 a]. cbn [fst snd] in *. subst a. cbn [cres_of fst snd].
         exists c. split; [reflexivity|]. rewrite <- K1, <- (K2 q).
-        split; [exact C1|]. split; [exact C2|]. split; [exact C3|]. split; [exact C4|].
+        split; [intros H; apply C1; apply Hhf; exact H|]. split; [exact C2|]. split; [exact C3|].
+        split; [exact C4|]. split; [|exact C6].
         intros q' Hq. rewrite (C5 q' Hq). apply K2.
       + (* Direct *)
-        destruct (cs_call _ _ _ _ _ Hc t y q) as (c & Hcc & C1 & C2 & C3 & C4 & C5).
+        destruct (cs_call _ _ _ _ _ _ Hc t y q) as (c & Hcc & C1 & C2 & C3 & C4 & C5 & C6).
         destruct (sub t (OCall y q)) as [t1 a]. cbn [fst snd] in *. subst a. cbn [cres_of fst snd].
-        exists c. auto 10.
+        exists c. split; [reflexivity|]. split; [intros H; apply C1; apply Hhf; exact H|]. auto 10.
       + (* Retry *)
-        destruct (cs_clone _ _ _ _ _ Hc t y) as ((y' & Hy) & K1 & K2).
+        destruct (cs_clone _ _ _ _ _ _ Hc t y) as ((y' & Hy) & K1 & K2).
         destruct (sub t (OClone y)) as [t1 a]. cbn [fst snd] in *. subst a.
-        destruct (cs_call _ _ _ _ _ Hc t1 y q) as (c & Hcc & C1 & C2 & C3 & C4 & C5).
+        destruct (cs_call _ _ _ _ _ _ Hc t1 y q) as (c & Hcc & C1 & C2 & C3 & C4 & C5 & C6).
         destruct (sub t1 (OCall y q)) as [t2 a]. cbn [fst snd] in *. subst a. cbn [cres_of].
-        assert (Hnp : pl = true -> False) by (intros H; apply Hpl in H; exact H).
-        destruct c; cbn [fst snd is_crdy] in *.
-        * destruct (attempts_count sub ne nc hf pl Hc fuel k t2 y q) as (I1 & I2 & I3 & I4).
-          destruct (attempts sub fuel k t2 y q) as [t3 e]. cbn [fst snd] in *.
-          exists e. split; [reflexivity|]. rewrite <- K1, <- (K2 q).
-          split; [intros H; rewrite (I1 H), (C1 H); lia|]. split; [lia|]. split; [lia|].
-          split; [intros H; destruct (Hnp H)|].
-          intros q' Hq. rewrite (I4 q' Hq), (C5 q' Hq). apply K2.
-        * exists CRdy. split; [reflexivity|]. rewrite <- K1, <- (K2 q).
-          split; [exact C1|]. split; [exact C2|]. split; [exact C3|]. split; [intros H; destruct (Hnp H)|].
-          intros q' Hq. rewrite (C5 q' Hq). apply K2.
-        * exists CHang. split; [reflexivity|]. rewrite <- K1, <- (K2 q).
-          split; [exact C1|]. split; [exact C2|]. split; [exact C3|]. split; [intros H; destruct (Hnp H)|].
-          intros q' Hq. rewrite (C5 q' Hq). apply K2.
+        pose proof (rloop_count sub ne nc hf pl nr Hc fuel df false k t2 y q c) as R. cbn zeta in R.
+        destruct R as (R1 & R2 & R3 & R4).
+        destruct (rloop sub fuel df false k t2 y q c) as [t3 e]. cbn [fst snd] in *.
+        exists e. split; [reflexivity|]. rewrite <- K1, <- (K2 q).
+        split; [|split; [lia|split; [lia|split; [|split]]]].
+        * intros H. destruct (Hhf H) as (H1 & _ & H3).
+          assert (Hd : df = true -> nr = true) by (intros ->; apply H3; reflexivity).
+          specialize (R2 H1 Hd (fun Hdt => C6 (Hd Hdt))). rewrite (C1 H1) in R2. lia.
+        * intros H. destruct (Hnp H) as (_ & Hx & _). cbn in Hx. destruct (Hpl H).
+        * intros q' Hq. rewrite (R4 q' Hq), (C5 q' Hq). apply K2.
+        * cbn. discriminate.
       + (* Hedge *)
-        destruct (cs_clone _ _ _ _ _ Hc t y) as ((y' & Hy) & K1 & K2).
+        destruct (cs_clone _ _ _ _ _ _ Hc t y) as ((y' & Hy) & K1 & K2).
         destruct (sub t (OClone y)) as [t1 a]. cbn [fst snd] in *. subst a.
-        destruct (cs_call _ _ _ _ _ Hc t1 y q) as (c & Hcc & C1 & C2 & C3 & C4 & C5).
-        destruct (sub t1 (OCall y q)) as [t2 a]. cbn [fst snd] in *. subst a.
-        destruct (hedges_count sub ne nc hf pl Hc fuel k t2 y' q) as (I1 & I2 & I3). cbn [fst snd].
-        exists COk. split; [reflexivity|]. rewrite <- K1, <- (K2 q).
-        split; [intros H; destruct (Hhf H)|]. split; [lia|]. split; [lia|].
-        split; [intros H; apply Hpl in H; destruct H|].
+        destruct (cs_call _ _ _ _ _ _ Hc t1 y q) as (c & Hcc & C1 & C2 & C3 & C4 & C5 & C6).
+        destruct (sub t1 (OCall y q)) as [t2 a]. cbn [fst snd] in *. subst a. cbn [cres_of].
+        destruct (hedges_count sub ne nc hf pl nr Hc fuel k t2 y' q (is_ok c)) as (I1 & I2 & I3).
+        destruct (hedges sub fuel k t2 y' q (is_ok c)) as [t3 ok]. cbn [fst snd] in *.
+        exists (hedge_result ok). split; [reflexivity|]. rewrite <- K1, <- (K2 q), is_crdy_hedge.
+        split; [intros H; destruct (Hhf H) as (_ & [] & _)|]. split; [lia|]. split; [lia|].
+        split; [intros H; destruct (Hpl H)|]. split; [|intros _; apply hedge_result_not_ready].
         intros q' Hq. rewrite (I3 q' Hq), (C5 q' Hq). apply K2.
+      + (* HedgeSeq *)
+        destruct (cs_clone _ _ _ _ _ _ Hc t y) as ((y' & Hy) & K1 & K2).
+        destruct (sub t (OClone y)) as [t1 a]. cbn [fst snd] in *. subst a.
+        destruct (cs_call _ _ _ _ _ _ Hc t1 y q) as (c & Hcc & C1 & C2 & C3 & C4 & C5 & C6).
+        destruct (sub t1 (OCall y q)) as [t2 a]. cbn [fst snd] in *. subst a. cbn [cres_of].
+        destruct (is_ok c) eqn:Eok.
+        * cbn [fst snd]. exists COk. split; [reflexivity|]. rewrite <- K1, <- (K2 q). cbn [is_crdy].
+          split; [intros H; destruct (Hhf H) as (_ & [] & _)|]. split; [lia|]. split; [lia|].
+          split; [intros H; destruct (Hpl H)|]. split; [|discriminate].
+          intros q' Hq. rewrite (C5 q' Hq). apply K2.
+        * destruct (hseq_count sub ne nc hf pl nr Hc fuel k t2 y' q) as (I1 & I2 & I3).
+          destruct (hseq sub fuel k t2 y' q) as [t3 ok]. cbn [fst snd] in *.
+          exists (hedge_result ok). split; [reflexivity|]. rewrite <- K1, <- (K2 q), is_crdy_hedge.
+          split; [intros H; destruct (Hhf H) as (_ & [] & _)|]. split; [lia|]. split; [lia|].
+          split; [intros H; destruct (Hpl H)|]. split; [|intros _; apply hedge_result_not_ready].
+          intros q' Hq. rewrite (I3 q' Hq), (C5 q' Hq). apply K2.
       + (* Reconnect *)
-        destruct (cs_call _ _ _ _ _ Hc t y q) as (c & Hcc & C1 & C2 & C3 & C4 & C5).
+        destruct (cs_call _ _ _ _ _ _ Hc t y q) as (c & Hcc & C1 & C2 & C3 & C4 & C5 & C6).
         destruct (sub t (OCall y q)) as [t1 a]. cbn [fst snd] in *. subst a.
-        destruct (cs_clone _ _ _ _ _ Hc t1 y) as ((z & Hz) & K1 & K2).
+        destruct (cs_clone _ _ _ _ _ _ Hc t1 y) as ((z & Hz) & K1 & K2).
         destruct (sub t1 (OClone y)) as [t2 a]. cbn [fst snd] in *. subst a. cbn [cres_of].
-        assert (Hnp : pl = true -> False) by (intros H; apply Hpl in H; exact H).
-        destruct c; cbn [fst snd is_crdy] in *.
-        * destruct (attempts_count sub ne nc hf pl Hc fuel k t2 z q) as (I1 & I2 & I3 & I4).
-          destruct (attempts sub fuel k t2 z q) as [t3 e]. cbn [fst snd] in *.
-          exists e. split; [reflexivity|].
-          split; [intros H; rewrite (I1 H), K1, (C1 H); lia|]. split; [lia|].
-          split; [rewrite (K2 q) in I3; lia|].
-          split; [intros H; destruct (Hnp H)|].
-          intros q' Hq. rewrite (I4 q' Hq), K2. apply (C5 q' Hq).
-        * exists CRdy. split; [reflexivity|]. rewrite K1, (K2 q).
-          split; [exact C1|]. split; [exact C2|]. split; [exact C3|]. split; [intros H; destruct (Hnp H)|].
-          intros q' Hq. rewrite K2. apply (C5 q' Hq).
-        * exists CHang. split; [reflexivity|]. rewrite K1, (K2 q).
-          split; [exact C1|]. split; [exact C2|]. split; [exact C3|]. split; [intros H; destruct (Hnp H)|].
-          intros q' Hq. rewrite K2. apply (C5 q' Hq).
+        pose proof (rloop_count sub ne nc hf pl nr Hc fuel df true (S k) t2 z q c) as R. cbn zeta in R.
+        destruct R as (R1 & R2 & R3 & R4).
+        destruct (rloop sub fuel df true (S k) t2 z q c) as [t3 e]. cbn [fst snd] in *.
+        exists e. split; [reflexivity|].
+        split; [|split; [lia|split; [rewrite (K2 q) in R3; lia|split; [|split]]]].
+        * intros H. destruct (Hhf H) as (H1 & _ & H3).
+          assert (Hd : df = true -> nr = true) by (intros ->; apply H3; reflexivity).
+          specialize (R2 H1 Hd (fun Hdt => C6 (Hd Hdt))). rewrite K1, (C1 H1) in R2. lia.
+        * intros H. destruct (Hpl H).
+        * intros q' Hq. rewrite (R4 q' Hq), K2. apply (C5 q' Hq).
+        * cbn. discriminate.
   Qed.
 End LayerCounting.
 
@@ -822,52 +950,75 @@ Proof. unfold execp. cbn [exec fst snd]. destruct ls; destruct (base_exec b o); 
 Definition sne (t : list lstate * base) : nat := nerrs (blog (snd t)).
 Definition snc (q : Z) (t : list lstate * base) : nat := ncalls q (blog (snd t)).
 
-Lemma base_cspec : cspec base_exec (fun b => nerrs (blog b)) (fun q b => ncalls q (blog b)) true true.
+Lemma base_cspec : cspec base_exec (fun b => nerrs (blog b)) (fun q b => ncalls q (blog b)) true true true.
 Proof.
   constructor.
   - intros b x. exists (answer b x). cbn. split; [reflexivity|]. split; [|auto].
     destruct (answer b x); cbn; lia.
   - intros b x. cbn. split; [eexists; reflexivity|auto].
-  - intros b x q. exists COk. cbn. rewrite Z.eqb_refl.
+  - intros b x q. exists (call_result b q). cbn. rewrite Z.eqb_refl.
+    assert (Hn : is_crdy (call_result b q) = 0 /\ call_result b q <> CErr KReady).
+    { unfold call_result. destruct (Z.testbit _ _); [split; [reflexivity|discriminate]|].
+      destruct (Nat.ltb _ _); split; try reflexivity; discriminate. }
+    destruct Hn as [Hn1 Hn2]. rewrite Hn1.
     split; [reflexivity|]. split; [intros; lia|]. split; [lia|]. split; [lia|]. split; [intros; lia|].
+    split; [|intros _; exact Hn2].
     intros q' Hq. apply Z.eqb_neq in Hq. rewrite Z.eqb_sym, Hq. reflexivity.
 Qed.
 
-Lemma cspec_weaken {T} (sub : T -> op -> T * ans) ne nc hf pl hf' pl' :
-  cspec sub ne nc hf pl -> (hf' = true -> hf = true) -> (pl' = true -> pl = true) ->
-  cspec sub ne nc hf' pl'.
+Lemma cspec_weaken {T} (sub : T -> op -> T * ans) ne nc hf pl nr hf' pl' nr' :
+  cspec sub ne nc hf pl nr -> (hf' = true -> hf = true) -> (pl' = true -> pl = true) ->
+  (nr' = true -> nr = true) -> cspec sub ne nc hf' pl' nr'.
 Proof.
-  intros [P K C] Hh Hp. constructor; auto.
-  intros t x q. destruct (C t x q) as (c & H1 & H2 & H3 & H4 & H5 & H6).
+  intros [P K C] Hh Hp Hn. constructor; auto.
+  intros t x q. destruct (C t x q) as (c & H1 & H2 & H3 & H4 & H5 & H6 & H7).
   exists c. repeat split; auto.
 Qed.
 
-Lemma stack_cspec fuel hf pl : forall ds,
-  (hf = true -> Forall no_hedge ds) -> (pl = true -> Forall plain_disc ds) ->
-  cspec (execp fuel ds) sne snc hf pl.
+(* which stacks: [nr_of]: no call through the stack ends with a readiness error; [exact_of]: no
+   hedge layer, and every retrying layer with the DEFAULT predicate sits above layers through which
+   no call ends with a readiness error (it has nothing to swallow) *)
+Fixpoint nr_of (ds : list disc) : bool :=
+  match ds with [] => true | d :: r => keeps_nr d (nr_of r) end.
+Definition no_hedgeb (d : disc) : bool := match d with Hedge _ | HedgeSeq _ => false | _ => true end.
+Fixpoint exact_of (ds : list disc) : bool :=
+  match ds with
+  | [] => true
+  | d :: r => exact_of r && no_hedgeb d && (negb (is_dflt d) || nr_of r)
+  end.
+Definition plainb (d : disc) : bool := match d with Swap | Direct => true | _ => false end.
+
+Lemma stack_cspec fuel : forall ds,
+  cspec (execp fuel ds) sne snc (exact_of ds) (forallb plainb ds) (nr_of ds).
 Proof.
-  induction ds as [|d ds' IH]; intros Hh Hp.
-  - apply (cspec_weaken _ _ _ true true); auto.
-    pose proof base_cspec as [P K C]. unfold sne, snc.
+  induction ds as [|d ds' IH].
+  - pose proof base_cspec as [P K C]. unfold sne, snc. cbn [exact_of forallb nr_of].
     constructor; intros [ls b]; intros; rewrite execp_base; cbn [fst snd]; auto.
-  - assert (Hh' : hf = true -> Forall no_hedge ds') by (intros H; specialize (Hh H); inversion Hh; auto).
-    assert (Hp' : pl = true -> Forall plain_disc ds') by (intros H; specialize (Hp H); inversion Hp; auto).
-    assert (Hhd : hf = true -> no_hedge d) by (intros H; specialize (Hh H); inversion Hh; auto).
-    assert (Hpd : pl = true -> plain_disc d) by (intros H; specialize (Hp H); inversion Hp; auto).
-    pose proof (layer_cspec (execp fuel ds') sne snc hf pl (IH Hh' Hp') fuel d Hhd Hpd) as [P K C].
+  - assert (Hhf : exact_of (d :: ds') = true ->
+                  exact_of ds' = true /\ no_hedge d /\ (is_dflt d = true -> nr_of ds' = true)).
+    { cbn [exact_of]. intros H. apply andb_prop in H. destruct H as [H H3]. apply andb_prop in H.
+      destruct H as [H1 H2]. split; [exact H1|]. split; [destruct d; cbn in *; auto; discriminate|].
+      intros Hd. rewrite Hd in H3. cbn in H3. exact H3. }
+    assert (Hpl : forallb plainb ds' = true -> True) by auto.
+    pose proof (cspec_weaken _ _ _ _ _ _ (exact_of ds') (forallb plainb (d :: ds')) (nr_of ds') IH
+                  (fun H => H) (fun H => proj2 (andb_prop _ _ H)) (fun H => H)) as IH'.
+    assert (Hpd : forallb plainb (d :: ds') = true -> plain_disc d).
+    { cbn [forallb]. intros H. apply andb_prop in H. destruct H as [H _]. destruct d; cbn in *; auto; discriminate. }
+    pose proof (layer_cspec (execp fuel ds') sne snc _ _ _ IH' fuel d (exact_of (d :: ds')) Hhf Hpd) as [P K C].
+    pose proof base_cspec as [P0 K0 C0].
     constructor.
     + intros [[|l ls'] b] x.
-      * rewrite execp_nil. pose proof base_cspec as [P0 _ _]. unfold sne, snc. cbn [fst snd]. apply P0.
+      * rewrite execp_nil. unfold sne, snc. cbn [fst snd]. apply P0.
       * specialize (P (l, (ls', b)) x). rewrite execp_cons.
         destruct (lsub (execp fuel ds') fuel d (l, (ls', b)) (OPoll x)) as [[l' [ls2 b2]] a]. exact P.
     + intros [[|l ls'] b] x.
-      * rewrite execp_nil. pose proof base_cspec as [_ K0 _]. unfold sne, snc. cbn [fst snd]. apply K0.
+      * rewrite execp_nil. unfold sne, snc. cbn [fst snd]. apply K0.
       * specialize (K (l, (ls', b)) x). rewrite execp_cons.
         destruct (lsub (execp fuel ds') fuel d (l, (ls', b)) (OClone x)) as [[l' [ls2 b2]] a]. exact K.
     + intros [[|l ls'] b] x q.
-      * rewrite execp_nil. pose proof base_cspec as [_ _ C0]. unfold sne, snc. cbn [fst snd].
-        destruct (C0 b x q) as (c & H1 & H2 & H3 & H4 & H5 & H6). exists c. repeat split; auto.
-      * specialize (C (l, (ls', b)) x q). rewrite execp_cons.
+      * rewrite execp_nil. unfold sne, snc. cbn [fst snd].
+        destruct (C0 b x q) as (c & H1 & H2 & H3 & H4 & H5 & H6 & H7). exists c. repeat split; auto.
+      * specialize (C (l, (ls', b)) x q). rewrite execp_cons. cbn [nr_of].
         destruct (lsub (execp fuel ds') fuel d (l, (ls', b)) (OCall x q)) as [[l' [ls2 b2]] a]. exact C.
 Qed.
 
@@ -891,10 +1042,10 @@ Proof. destruct r; intros H; [congruence|split; reflexivity|split; reflexivity].
 Lemma code_of_ans_done c :
   ((code_of_ans (ADone c) =? 1) || (code_of_ans (ADone c) =? 3))%Z = false /\
   (if surfaced (code_of_ans (ADone c)) then 1 else 0) = is_crdy c.
-Proof. destruct c; split; reflexivity. Qed.
+Proof. destruct c as [|[| | |]|]; split; reflexivity. Qed.
 
-Lemma client_counts cf fuel ds hf pl :
-  cspec (execp fuel ds) sne snc hf pl ->
+Lemma client_counts cf fuel ds hf pl nr :
+  cspec (execp fuel ds) sne snc hf pl nr ->
   forall reqs t,
     let r := client cf fuel ds t reqs in
     (hf = true -> sne (fst r) = sne t + count_if surfaced (snd r)) /\
@@ -904,7 +1055,7 @@ Lemma client_counts cf fuel ds hf pl :
 Proof.
   intros Hc. induction reqs as [|q0 rest IH]; intros t; [cbn; repeat split; intros; lia|].
   cbn zeta. rewrite client_cons.
-  destruct (poll_until_count (execp fuel ds) sne snc hf pl Hc cf t 0) as [P1 P2].
+  destruct (poll_until_count (execp fuel ds) sne snc hf pl nr Hc cf t 0) as [P1 P2].
   destruct (poll_until (execp fuel ds) cf t 0) as [t1 r] eqn:E. cbn [fst snd] in *.
   assert (Hskip : r <> RReady ->
     let r' := let '(t3, out) := client cf fuel ds t1 rest in (t3, code_of_rres r :: out) in
@@ -922,7 +1073,7 @@ Proof.
     - intros H q. rewrite (I3 H q), P2. reflexivity.
     - cbn [length]. lia. }
   destruct r; [|apply Hskip; discriminate|apply Hskip; discriminate]. clear Hskip.
-  destruct (cs_call _ _ _ _ _ Hc t1 0 q0) as (c & Hcc & C1 & C2 & C3 & C4 & C5).
+  destruct (cs_call _ _ _ _ _ _ Hc t1 0 q0) as (c & Hcc & C1 & C2 & C3 & C4 & C5 & C6).
   destruct (execp fuel ds t1 (OCall 0 q0)) as [t2 a] eqn:E2. cbn [fst snd] in *. subst a.
   destruct (code_of_ans_done c) as [K1 K2].
   specialize (IH t2). cbn zeta in IH. destruct (client cf fuel ds t2 rest) as [t3 out].
@@ -940,24 +1091,62 @@ Proof.
     + rewrite (I3 H q), (C5 q) by congruence. rewrite P2. reflexivity.
 Qed.
 
-(* C20 (readiness errors surface as readiness errors), any stack without a hedge layer, any
-   request list, any oracle: the wrapped service's readiness errors and the requests the client
-   saw failing with a readiness error (at poll_ready: code 1, inside the call: code 2) are
-   equinumerous: each error ends exactly one request, none is swallowed, none is made up *)
+Lemma plainb_forall ds : Forall plain_disc ds -> forallb plainb ds = true.
+Proof. induction 1 as [|d r Hd Hr IH]; [reflexivity|]. cbn. rewrite IH. destruct d; cbn in *; tauto. Qed.
+
+(* "none made up", EVERY stack: a request the client saw failing with a readiness error (code 1 at
+   poll_ready, code 2 inside the call) was failed by a readiness error of the wrapped service *)
+Lemma client_surfaced_le cf fuel ds hf pl nr :
+  cspec (execp fuel ds) sne snc hf pl nr ->
+  forall reqs t, sne t + count_if surfaced (snd (client cf fuel ds t reqs)) <= sne (fst (client cf fuel ds t reqs)).
+Proof.
+  intros Hc. induction reqs as [|q0 rest IH]; intros t; [cbn; lia|].
+  rewrite client_cons.
+  destruct (poll_until_count (execp fuel ds) sne snc hf pl nr Hc cf t 0) as [P1 P2].
+  destruct (poll_until (execp fuel ds) cf t 0) as [t1 r] eqn:E. cbn [fst snd] in *.
+  assert (Hskip : r <> RReady ->
+    sne t + count_if surfaced (snd (let '(t3, out) := client cf fuel ds t1 rest in (t3, code_of_rres r :: out)))
+    <= sne (fst (let '(t3, out) := client cf fuel ds t1 rest in (t3, code_of_rres r :: out)))).
+  { intros Hr. destruct (code_of_rres_cases r Hr) as [K1 K2].
+    specialize (IH t1). destruct (client cf fuel ds t1 rest) as [t3 out]. cbn [fst snd] in *.
+    unfold count_if in *. cbn [filter]. revert K2. destruct (surfaced (code_of_rres r)); cbn [length]; lia. }
+  destruct r; [|apply Hskip; discriminate|apply Hskip; discriminate]. clear Hskip.
+  destruct (cs_call _ _ _ _ _ _ Hc t1 0 q0) as (c & Hcc & C1 & C2 & C3 & C4 & C5 & C6).
+  destruct (execp fuel ds t1 (OCall 0 q0)) as [t2 a] eqn:E2. cbn [fst snd] in *. subst a.
+  destruct (code_of_ans_done c) as [K1 K2].
+  specialize (IH t2). destruct (client cf fuel ds t2 rest) as [t3 out]. cbn [fst snd] in *.
+  unfold count_if in *. cbn [filter is_err] in *. revert K2.
+  destruct (surfaced (code_of_ans (ADone c))); cbn [length]; lia.
+Qed.
+
+Theorem readiness_errors_never_made_up cf fuel ds t reqs :
+  let r := client cf fuel ds t reqs in
+  nerrs (blog (snd t)) + count_if surfaced (snd r) <= nerrs (blog (snd (fst r))).
+Proof. exact (client_surfaced_le cf fuel ds _ _ _ (stack_cspec fuel ds) reqs t). Qed.
+
+(* C20 (readiness errors surface as readiness errors). Stacks with [exact_of ds = true]: no hedge
+   layer (hedge fails only the attempt that met the error, by design), and every retry / reconnect
+   layer either has a predicate that refuses readiness errors (the driver's retry_on(kind ==
+   TRANSIENT) / "E kind=1" predicates) or, with the crate's DEFAULT predicate, has only layers below
+   it through which no call can end with a readiness error. For them, any request list, any oracle:
+   the wrapped service's readiness errors and the requests the client saw failing with a readiness
+   error are equinumerous: each error ends exactly one request, none is swallowed, none is made up.
+   (A default-predicate retry ABOVE another retrying layer retries that layer's readiness error like
+   any call error -- its own protective condition; see default_predicate_swallows.) *)
 Theorem readiness_errors_surface_once cf fuel ds t reqs :
-  Forall no_hedge ds ->
+  exact_of ds = true ->
   let r := client cf fuel ds t reqs in
   nerrs (blog (snd (fst r))) = nerrs (blog (snd t)) + count_if surfaced (snd r).
 Proof.
-  intros Hh. pose proof (stack_cspec fuel true false ds (fun _ => Hh) ltac:(discriminate)) as Hc.
-  destruct (client_counts cf fuel ds true false Hc reqs t) as (H1 & _). apply H1. reflexivity.
+  intros Hh. pose proof (stack_cspec fuel ds) as Hc. rewrite Hh in Hc.
+  destruct (client_counts cf fuel ds _ _ _ Hc reqs t) as (H1 & _). apply H1. reflexivity.
 Qed.
 
 (* in particular (one request): a readiness error met anywhere, at any depth, at poll_ready or
    before a further attempt of a retry / reconnect layer, ends that request with a readiness
    error *)
 Corollary readiness_error_ends_request cf fuel ds b0 q :
-  Forall no_hedge ds -> nerrs (blog b0) = 0 ->
+  exact_of ds = true -> nerrs (blog b0) = 0 ->
   let r := client cf fuel ds (init_stack ds b0) [q] in
   (exists x, In (LPoll x RErr) (blog (snd (fst r)))) -> snd r = [1%Z] \/ snd r = [2%Z].
 Proof.
@@ -966,14 +1155,56 @@ Proof.
   fold r in H. cbn [init_stack snd] in H. rewrite H0 in H.
   assert (Hpos : 1 <= nerrs (blog (snd (fst r)))).
   { clear H. induction (blog (snd (fst r))) as [|e l IH]; [destruct Hx|].
-    destruct Hx as [->|Hx]; [cbn; lia|]. specialize (IH Hx). destruct e as [y [| |]|y q' ok|y z]; cbn; lia. }
+    destruct Hx as [->|Hx]; [cbn; lia|]. specialize (IH Hx). destruct e as [y [| |]|y q' ok res|y z]; cbn; lia. }
   unfold r in *. clear r. cbn [client] in *.
   destruct (poll_until (execp fuel ds) cf (init_stack ds b0) 0) as [t1 [| |]].
   - destruct (execp fuel ds t1 (OCall 0 q)) as [t2 a]. cbn [fst snd] in *.
-    destruct a as [i|r'|[| |]]; cbn in *; try lia. right. reflexivity.
+    destruct a as [i|r'|[|[| | |]|]]; cbn in *; try lia. right. reflexivity.
   - cbn in *. lia.
   - cbn. left. reflexivity.
 Qed.
+
+(* the single retrying layer, WHATEVER its predicate: its own failed readiness check before a
+   further attempt is returned, not retried (regressions R1 / R2 of the second review) *)
+Corollary single_retrying_layer_surfaces_its_readiness_error above k dflt below :
+  Forall plain_disc above -> Forall plain_disc below ->
+  exact_of (above ++ Retry k dflt :: below) = true /\ exact_of (above ++ Reconnect k dflt :: below) = true.
+Proof.
+  intros Ha Hb.
+  assert (Hbn : nr_of below = true /\ exact_of below = true).
+  { induction Hb as [|d r Hd Hr IH]; [split; reflexivity|]. destruct IH as [I1 I2].
+    destruct d; cbn in Hd; try contradiction; cbn; rewrite I1, I2; split; reflexivity. }
+  destruct Hbn as [Hn He].
+  split; induction Ha as [|d r Hd Hr IH]; cbn [app exact_of];
+    try (rewrite He, Hn; destruct dflt; reflexivity);
+    rewrite IH; destruct d; cbn in Hd; try contradiction; reflexivity.
+Qed.
+
+(* with the crates' DEFAULT predicates the equality is false, legitimately: a default-predicate retry
+   above another retrying layer retries that layer's readiness error like any other call error (its
+   protective condition is triggered). Witness: retry (default, 1 further attempt) over retry (1
+   further attempt), the wrapped service fails the first call and answers Err to the poll_ready
+   before the inner layer's further attempt: the request is answered Ok, one readiness error in the
+   log, none surfaced. The Tower contract is kept all the same (stack_honours_readiness). *)
+Example default_predicate_swallows :
+  let ds := [Retry 1 true; Retry 1 false] in
+  let r := client 8 9 ds (init_stack ds (init_base_f [RReady; RErr] 1 0)) [1%Z] in
+  snd r = [0%Z] /\ nerrs (blog (snd (fst r))) = 1 /\ violations (snd (fst r)) = 0 /\ exact_of ds = false.
+Proof. vm_compute. repeat split; reflexivity. Qed.
+
+(* the same two layers with the driver's predicate on the outer one: the error surfaces (code 2) *)
+Example filtered_predicate_surfaces :
+  let ds := [Retry 1 false; Retry 1 false] in
+  let r := client 8 9 ds (init_stack ds (init_base_f [RReady; RErr] 1 0)) [1%Z] in
+  snd r = [2%Z] /\ nerrs (blog (snd (fst r))) = 1 /\ exact_of ds = true.
+Proof. vm_compute. repeat split; reflexivity. Qed.
+
+(* a single default-predicate retry layer returns its own failed readiness check *)
+Example single_default_retry_surfaces :
+  let ds := [Swap; Retry 2 true; Direct] in
+  let r := client 8 9 ds (init_stack ds (init_base_f [RReady; RErr] 2 0)) [1%Z] in
+  snd r = [2%Z] /\ exact_of ds = true.
+Proof. vm_compute. split; reflexivity. Qed.
 
 (* C20 (each request is forwarded unchanged), sequential client: the wrapped service sees every
    request the client issued (at least once; exactly once when no layer retries or hedges) and no
@@ -986,38 +1217,38 @@ Theorem requests_reach_the_service cf fuel ds t reqs :
       ncalls q (blog (snd (fst r))) =
       ncalls q (blog (snd t)) + count_occ Z.eq_dec (issued reqs (snd r)) q).
 Proof.
+  pose proof (stack_cspec fuel ds) as Hc.
   split.
-  - pose proof (stack_cspec fuel false false ds ltac:(discriminate) ltac:(discriminate)) as Hc.
-    destruct (client_counts cf fuel ds false false Hc reqs t) as (_ & H2 & _). exact H2.
-  - intros Hp. pose proof (stack_cspec fuel false true ds ltac:(discriminate) (fun _ => Hp)) as Hc.
-    destruct (client_counts cf fuel ds false true Hc reqs t) as (_ & _ & H3 & _). apply H3. reflexivity.
+  - destruct (client_counts cf fuel ds _ _ _ Hc reqs t) as (_ & H2 & _). exact H2.
+  - intros Hp. rewrite (plainb_forall ds Hp) in Hc.
+    destruct (client_counts cf fuel ds _ _ _ Hc reqs t) as (_ & _ & H3 & _). apply H3. reflexivity.
 Qed.
 
 (* the functional half of the readiness clause: a request answered with code 0 was called, on an
    instance that had been polled ready *)
-Lemma ncalls_pos_in q l : 1 <= ncalls q l -> exists x ok, In (LCall x q ok) l.
+Lemma ncalls_pos_in q l : 1 <= ncalls q l -> exists x ok res, In (LCall x q ok res) l.
 Proof.
   induction l as [|e l IH]; cbn; [lia|].
-  destruct e as [y r|y q' ok|y z]; intros H.
-  - destruct (IH H) as (x & ok & Hin). eauto.
+  destruct e as [y r|y q' ok res|y z]; intros H.
+  - destruct (IH H) as (x & ok & res & Hin). eauto.
   - destruct (Z.eqb_spec q' q) as [->|Hne].
-    + exists y, ok. left. reflexivity.
-    + destruct (IH ltac:(cbn in H; lia)) as (x & ok' & Hin). eauto.
-  - destruct (IH H) as (x & ok & Hin). eauto.
+    + exists y, ok, res. left. reflexivity.
+    + destruct (IH ltac:(cbn in H; lia)) as (x & ok' & res' & Hin). eauto.
+  - destruct (IH H) as (x & ok & res & Hin). eauto.
 Qed.
 
 Theorem answered_request_was_called cf fuel ds b0 q :
   base_ok b0 -> violations b0 = 0 ->
   let r := client cf fuel ds (init_stack ds b0) [q] in
-  snd r = [0%Z] -> exists x, In (LCall x q true) (blog (snd (fst r))).
+  snd r = [0%Z] -> exists x res, In (LCall x q true res) (blog (snd (fst r))).
 Proof.
   intros Hb H0 r Hout.
   destruct (requests_reach_the_service cf fuel ds (init_stack ds b0) [q]) as [H _].
   fold r in H. specialize (H q). rewrite Hout in H. cbn [issued Z.eqb orb count_occ] in H.
   destruct (Z.eq_dec q q) as [_|Hne]; [|congruence].
-  destruct (ncalls_pos_in q (blog (snd (fst r))) ltac:(lia)) as (x & ok & Hin).
+  destruct (ncalls_pos_in q (blog (snd (fst r))) ltac:(lia)) as (x & ok & res & Hin).
   destruct (stack_honours_readiness cf fuel ds b0 [q] Hb H0) as [_ Hall]. fold r in Hall.
-  exists x. unfold all_calls_ready in Hall. rewrite Forall_forall in Hall.
+  exists x, res. unfold all_calls_ready in Hall. rewrite Forall_forall in Hall.
   specialize (Hall _ Hin). cbn in Hall. subst ok. exact Hin.
 Qed.
 
@@ -1031,10 +1262,10 @@ Definition issued_between (c c' : cst) (q : Z) : nat :=
 
 Section ProgCount.
   Context {T : Type} (sub : T -> op -> T * ans) (ne : T -> nat) (nc : Z -> T -> nat).
-  Context (hf pl : bool) (Hc : cspec sub ne nc hf pl) (cf : nat).
+  Context (hf pl nr : bool) (Hc : cspec sub ne nc hf pl nr) (cf : nat).
 
   Lemma code_of_ans_two c : (if is_two (code_of_ans (ADone c)) then 1 else 0) = is_crdy c.
-  Proof. destruct c; reflexivity. Qed.
+  Proof. destruct c as [|[| | |]|]; reflexivity. Qed.
   Lemma code_of_rres_one r : (if is_one (code_of_rres r) then 1 else 0) = is_err r.
   Proof. destruct r; reflexivity. Qed.
 
@@ -1058,14 +1289,14 @@ Section ProgCount.
     { intros z Hz. rewrite Hz. repeat split; intros; rewrite ?Hib by reflexivity; lia. }
     destruct o as [h|h|h|h|]; cbn [cstep fst snd]; try (apply Hsame; reflexivity).
     - destruct (nth_error (hs c) h) as [x|]; [|apply Hsame; reflexivity].
-      destruct (poll_until_count sub ne nc hf pl Hc cf t x) as [P1 P2].
+      destruct (poll_until_count sub ne nc hf pl nr Hc cf t x) as [P1 P2].
       destruct (poll_until sub cf t x) as [t1 r]. cbn [fst snd outs nreq] in *.
       rewrite code_of_rres_one.
       split; [intros; lia|]. split; [lia|]. split; [intros q; rewrite Hib by reflexivity; rewrite P2; lia|].
       intros _ q. rewrite Hib by reflexivity. rewrite P2. lia.
     - destruct (nth_error (hs c) h) as [x|]; [|apply Hsame; reflexivity].
       destruct (crdy c x); [|apply Hsame; reflexivity].
-      destruct (cs_call _ _ _ _ _ Hc t x (Z.of_nat (S (nreq c)))) as (cr & Hcc & C1 & C2 & C3 & C4 & C5).
+      destruct (cs_call _ _ _ _ _ _ Hc t x (Z.of_nat (S (nreq c)))) as (cr & Hcc & C1 & C2 & C3 & C4 & C5 & C6).
       destruct (sub t (OCall x (Z.of_nat (S (nreq c))))) as [t1 a]. cbn [fst snd outs nreq] in *. subst a.
       assert (Hib1 : forall q, issued_between c (mkC (hs c) (updb (crdy c) x false)
                         (code_of_ans (ADone cr) :: outs c) (S (nreq c))) q =
@@ -1084,7 +1315,7 @@ Section ProgCount.
       + intros H q. rewrite Hib1. destruct (Z.eq_dec q (Z.of_nat (S (nreq c)))) as [->|Hne]; [apply (C4 H)|].
         rewrite (C5 q Hne). lia.
     - destruct (nth_error (hs c) h) as [x|]; [|apply Hsame; reflexivity].
-      destruct (cs_clone _ _ _ _ _ Hc t x) as ((y & Hy) & K1 & K2).
+      destruct (cs_clone _ _ _ _ _ _ Hc t x) as ((y & Hy) & K1 & K2).
       destruct (sub t (OClone x)) as [t1 a]. cbn [fst snd] in *. subst a. cbn [fst snd outs nreq].
       split; [intros; cbn; lia|]. split; [lia|]. split; [intros q; rewrite Hib by reflexivity; rewrite K2; lia|].
       intros _ q. rewrite Hib by reflexivity. rewrite K2. lia.
@@ -1104,7 +1335,7 @@ Qed.
 
 Section ProgCount2.
   Context {T : Type} (sub : T -> op -> T * ans) (ne : T -> nat) (nc : Z -> T -> nat).
-  Context (hf pl : bool) (Hc : cspec sub ne nc hf pl) (cf : nat).
+  Context (hf pl nr : bool) (Hc : cspec sub ne nc hf pl nr) (cf : nat).
 
   Lemma run_cops_count : forall os p,
     let r := run_cops sub cf p os in
@@ -1120,7 +1351,7 @@ Section ProgCount2.
       { intros q. unfold issued_between. destruct (Z.ltb_spec (Z.of_nat (nreq (snd p))) q);
           destruct (Z.leb_spec q (Z.of_nat (nreq (snd p)))); cbn; try reflexivity. lia. }
       repeat split; intros; rewrite ?Hib; lia.
-    - destruct (cstep_count sub ne nc hf pl Hc cf p o) as (S1 & S2 & S3 & S4).
+    - destruct (cstep_count sub ne nc hf pl nr Hc cf p o) as (S1 & S2 & S3 & S4).
       destruct (cstep sub cf p o) as [p1 z]. cbn [fst snd] in *.
       specialize (IH p1). cbn zeta in IH. destruct IH as (I1 & I2 & I3 & I4).
       destruct (run_cops sub cf p1 rest) as [p2 zs]. cbn [fst snd] in *.
@@ -1135,16 +1366,16 @@ Section ProgCount2.
   Qed.
 End ProgCount2.
 
-(* ANY program over a hedge-free stack: the wrapped service's readiness errors are equinumerous
-   with the poll operations that reported a readiness error (code 1) plus the requests that ended
-   with one (code 2) *)
+(* ANY program over a stack with [exact_of ds = true] (see readiness_errors_surface_once): the
+   wrapped service's readiness errors are equinumerous with the poll operations that reported a
+   readiness error (code 1) plus the requests that ended with one (code 2) *)
 Theorem program_readiness_errors_surface_once cf fuel ds b0 os :
-  Forall no_hedge ds -> nerrs (blog b0) = 0 ->
+  exact_of ds = true -> nerrs (blog b0) = 0 ->
   let r := run_cops (execp fuel ds) cf (init_stack ds b0, init_c) os in
   nerrs (blog (snd (fst (fst r)))) = count_if is_one (snd r) + count_if is_two (outs (snd (fst r))).
 Proof.
-  intros Hh H0. pose proof (stack_cspec fuel true false ds (fun _ => Hh) ltac:(discriminate)) as Hc.
-  destruct (run_cops_count (execp fuel ds) sne snc true false Hc cf os (init_stack ds b0, init_c)) as (H1 & _).
+  intros Hh H0. pose proof (stack_cspec fuel ds) as Hc. rewrite Hh in Hc.
+  destruct (run_cops_count (execp fuel ds) sne snc _ _ _ Hc cf os (init_stack ds b0, init_c)) as (H1 & _).
   specialize (H1 eq_refl). cbn zeta. unfold sne in H1. cbn [fst snd init_stack init_c outs] in H1.
   unfold count_if in H1 at 1. cbn [filter length] in H1. lia.
 Qed.
@@ -1163,16 +1394,16 @@ Proof.
   intros H0. cbn zeta.
   set (r := run_cops (execp fuel ds) cf (init_stack ds b0, init_c) os).
   split.
-  - pose proof (stack_cspec fuel false false ds ltac:(discriminate) ltac:(discriminate)) as Hc.
-    destruct (run_cops_count (execp fuel ds) sne snc false false Hc cf os (init_stack ds b0, init_c)) as (_ & _ & H3 & _).
+  - pose proof (stack_cspec fuel ds) as Hc.
+    destruct (run_cops_count (execp fuel ds) sne snc _ _ _ Hc cf os (init_stack ds b0, init_c)) as (_ & _ & H3 & _).
     fold r in H3. intros q Hq. specialize (H3 q). unfold snc, issued_between in H3.
     cbn [fst snd init_c nreq] in H3. change (snd (init_stack ds b0)) with b0 in H3. rewrite H0 in H3.
     destruct (Z.ltb_spec (Z.of_nat 0) q); [|lia].
     destruct (Z.leb_spec q (Z.of_nat (nreq (snd (fst r))))); [|lia].
     cbn [andb] in H3. lia.
   - intros Hp q.
-    pose proof (stack_cspec fuel false true ds ltac:(discriminate) (fun _ => Hp)) as Hc.
-    destruct (run_cops_count (execp fuel ds) sne snc false true Hc cf os (init_stack ds b0, init_c)) as (_ & _ & _ & H4).
+    pose proof (stack_cspec fuel ds) as Hc. rewrite (plainb_forall ds Hp) in Hc.
+    destruct (run_cops_count (execp fuel ds) sne snc _ _ _ Hc cf os (init_stack ds b0, init_c)) as (_ & _ & _ & H4).
     fold r in H4. specialize (H4 eq_refl q). unfold snc, issued_between in H4.
     cbn [fst snd init_c nreq] in H4. change (snd (init_stack ds b0)) with b0 in H4. rewrite H0 in H4.
     rewrite H4. cbn [Nat.add].
@@ -1213,46 +1444,74 @@ Section Starve.
     destruct r; cbn [snd]; try discriminate. apply IH. specialize (Hp eq_refl). lia.
   Qed.
 
-  Lemma attempts_mono k : forall t y q, pend (fst (attempts sub fuel k t y q)) <= pend t.
+  Lemma rloop_mono dflt lay : forall rem t y q c, pend (fst (rloop sub fuel dflt lay rem t y q c)) <= pend t.
   Proof.
-    induction k as [|k IH]; intros t y q; cbn [attempts]; [cbn; lia|].
+    induction rem as [|rem IH]; intros t y q c; destruct c as [|e|]; cbn [rloop fst]; try lia;
+      destruct (retryable dflt e); cbn [fst]; try lia.
     pose proof (poll_until_mono fuel t y) as M1.
     destruct (poll_until sub fuel t y) as [t1 r]. cbn [fst snd] in *.
     destruct r; cbn [fst]; try lia.
     pose proof (ms_mono Hm t1 (OCall y q)) as M2.
     destruct (sub t1 (OCall y q)) as [t2 a]. cbn [fst snd] in *.
-    destruct a as [i|r|[| |]]; cbn [fst]; try lia; specialize (IH t2 y q); lia.
+    specialize (IH t2 y q (cres_of a)). lia.
   Qed.
 
-  Lemma attempts_no_hang k : forall t y q, pend t < fuel -> snd (attempts sub fuel k t y q) <> CHang.
+  Lemma cres_of_no_hang t x q : pend t < fuel -> cres_of (snd (sub t (OCall x q))) <> CHang.
   Proof.
-    induction k as [|k IH]; intros t y q Hlt; cbn [attempts]; [cbn; discriminate|].
-    pose proof (poll_until_mono fuel t y) as M1.
-    pose proof (poll_until_answers fuel t y Hlt) as A1.
-    destruct (poll_until sub fuel t y) as [t1 r]. cbn [fst snd] in *.
-    destruct r; cbn [snd]; try discriminate; try congruence.
-    pose proof (ms_mono Hm t1 (OCall y q)) as M2.
-    pose proof (ms_call Hm t1 y q ltac:(lia)) as C.
-    destruct (sub t1 (OCall y q)) as [t2 a]. cbn [fst snd] in *.
-    destruct a as [i|r|[| |]]; cbn [snd]; try discriminate; try congruence; apply IH; lia.
+    intros H. pose proof (ms_call Hm t x q H) as C.
+    destruct (snd (sub t (OCall x q))) as [i|r|c]; cbn; try discriminate. congruence.
   Qed.
 
-  Lemma hedges_mono k : forall t y0 q, pend (hedges sub fuel k t y0 q) <= pend t.
+  Lemma rloop_no_hang dflt lay : forall rem t y q c, pend t < fuel -> c <> CHang ->
+    snd (rloop sub fuel dflt lay rem t y q c) <> CHang.
   Proof.
-    induction k as [|k IH]; intros t y0 q; cbn [hedges]; [lia|].
+    induction rem as [|rem IH]; intros t y q c Hlt Hc; destruct c as [|e|]; cbn [rloop snd]; try congruence;
+      destruct (retryable dflt e); cbn [snd]; try congruence.
+    - destruct lay; discriminate.
+    - pose proof (poll_until_mono fuel t y) as M1.
+      pose proof (poll_until_answers fuel t y Hlt) as A1.
+      destruct (poll_until sub fuel t y) as [t1 r]. cbn [fst snd] in *.
+      destruct r; cbn [snd]; try discriminate; try congruence.
+      pose proof (cres_of_no_hang t1 y q ltac:(lia)) as C.
+      pose proof (ms_mono Hm t1 (OCall y q)) as M2.
+      destruct (sub t1 (OCall y q)) as [t2 a]. cbn [fst snd] in *.
+      apply IH; [lia|exact C].
+  Qed.
+
+  Lemma hedges_mono k : forall t y0 q ok, pend (fst (hedges sub fuel k t y0 q ok)) <= pend t.
+  Proof.
+    induction k as [|k IH]; intros t y0 q ok; cbn [hedges fst]; [lia|].
     pose proof (ms_mono Hm t (OClone y0)) as M0.
     destruct (sub t (OClone y0)) as [t1 a]. cbn [fst snd] in *.
-    destruct a as [h|r|c]; try lia.
+    destruct a as [h|r|c]; cbn [fst]; try lia.
+    pose proof (poll_until_mono fuel t1 h) as M1.
+    destruct (poll_until sub fuel t1 h) as [t2 r]. cbn [fst snd] in *.
+    destruct r; try (specialize (IH t2 y0 q ok); lia).
+    pose proof (ms_mono Hm t2 (OCall h q)) as M2.
+    destruct (sub t2 (OCall h q)) as [t3 a3]. cbn [fst snd] in *.
+    specialize (IH t3 y0 q (ok || is_ok (cres_of a3))). lia.
+  Qed.
+
+  Lemma hseq_mono k : forall t y0 q, pend (fst (hseq sub fuel k t y0 q)) <= pend t.
+  Proof.
+    induction k as [|k IH]; intros t y0 q; cbn [hseq fst]; [lia|].
+    pose proof (ms_mono Hm t (OClone y0)) as M0.
+    destruct (sub t (OClone y0)) as [t1 a]. cbn [fst snd] in *.
+    destruct a as [h|r|c]; cbn [fst]; try lia.
     pose proof (poll_until_mono fuel t1 h) as M1.
     destruct (poll_until sub fuel t1 h) as [t2 r]. cbn [fst snd] in *.
     destruct r; try (specialize (IH t2 y0 q); lia).
     pose proof (ms_mono Hm t2 (OCall h q)) as M2.
-    destruct (sub t2 (OCall h q)) as [t3 a3]. cbn [fst snd] in *. specialize (IH t3 y0 q). lia.
+    destruct (sub t2 (OCall h q)) as [t3 a3]. cbn [fst snd] in *.
+    destruct (is_ok (cres_of a3)); cbn [fst]; [lia|]. specialize (IH t3 y0 q). lia.
   Qed.
+
+  Lemma hedge_result_no_hang ok : hedge_result ok <> CHang.
+  Proof. destruct ok; discriminate. Qed.
 
   Context (d : disc).
 
-  Lemma layer_mspec_gen : 
+  Lemma layer_mspec_gen :
     (forall p o, pend (snd (fst (lsub sub fuel d p o))) <= pend (snd p)) /\
     (forall p x, exists r, snd (lsub sub fuel d p (OPoll x)) = ARes r /\
                  (r = RPending -> pend (snd (fst (lsub sub fuel d p (OPoll x)))) < pend (snd p))) /\
@@ -1266,7 +1525,7 @@ Section Starve.
         destruct (sub t (OClone (imap l x))) as [t1 a]. destruct a; cbn [fst snd] in *; lia.
       + pose proof (ms_mono Hm t (OPoll (imap l x))) as M.
         destruct (sub t (OPoll (imap l x))) as [t1 a]. cbn [fst snd] in *. lia.
-      + set (y := imap l x). destruct d as [| |k|k|k].
+      + set (y := imap l x). destruct d as [| |k df|k|k|k df].
         * pose proof (ms_mono Hm t (OClone y)) as M. destruct (sub t (OClone y)) as [t1 a]. cbn [fst snd] in *.
           destruct a as [y'|r|c]; cbn [fst snd]; try lia.
           pose proof (ms_mono Hm t1 (OCall y q)) as M2. destruct (sub t1 (OCall y q)) as [t2 a0]. cbn [fst snd] in *. lia.
@@ -1274,17 +1533,24 @@ Section Starve.
         * pose proof (ms_mono Hm t (OClone y)) as M. destruct (sub t (OClone y)) as [t1 a]. cbn [fst snd] in *.
           destruct a as [y'|r|c]; cbn [fst snd]; try lia.
           pose proof (ms_mono Hm t1 (OCall y q)) as M2. destruct (sub t1 (OCall y q)) as [t2 a0]. cbn [fst snd] in *.
-          destruct (cres_of a0); cbn [fst snd]; try lia.
-          pose proof (attempts_mono k t2 y q) as M3. destruct (attempts sub fuel k t2 y q) as [t3 e]. cbn [fst snd] in *. lia.
+          pose proof (rloop_mono df false k t2 y q (cres_of a0)) as M3.
+          destruct (rloop sub fuel df false k t2 y q (cres_of a0)) as [t3 e]. cbn [fst snd] in *. lia.
         * pose proof (ms_mono Hm t (OClone y)) as M. destruct (sub t (OClone y)) as [t1 a]. cbn [fst snd] in *.
           destruct a as [y'|r|c]; cbn [fst snd]; try lia.
           pose proof (ms_mono Hm t1 (OCall y q)) as M2. destruct (sub t1 (OCall y q)) as [t2 a0]. cbn [fst snd] in *.
-          pose proof (hedges_mono k t2 y' q). lia.
+          pose proof (hedges_mono k t2 y' q (is_ok (cres_of a0))) as M3.
+          destruct (hedges sub fuel k t2 y' q (is_ok (cres_of a0))) as [t3 ok]. cbn [fst snd] in *. lia.
+        * pose proof (ms_mono Hm t (OClone y)) as M. destruct (sub t (OClone y)) as [t1 a]. cbn [fst snd] in *.
+          destruct a as [y'|r|c]; cbn [fst snd]; try lia.
+          pose proof (ms_mono Hm t1 (OCall y q)) as M2. destruct (sub t1 (OCall y q)) as [t2 a0]. cbn [fst snd] in *.
+          destruct (is_ok (cres_of a0)); cbn [fst snd]; [lia|].
+          pose proof (hseq_mono k t2 y' q) as M3.
+          destruct (hseq sub fuel k t2 y' q) as [t3 ok]. cbn [fst snd] in *. lia.
         * pose proof (ms_mono Hm t (OCall y q)) as M. destruct (sub t (OCall y q)) as [t1 a0]. cbn [fst snd] in *.
           pose proof (ms_mono Hm t1 (OClone y)) as M2. destruct (sub t1 (OClone y)) as [t2 a]. cbn [fst snd] in *.
           destruct a as [z|r|c]; cbn [fst snd]; try lia.
-          destruct (cres_of a0); cbn [fst snd]; try lia.
-          pose proof (attempts_mono k t2 z q) as M3. destruct (attempts sub fuel k t2 z q) as [t3 e]. cbn [fst snd] in *. lia.
+          pose proof (rloop_mono df true (S k) t2 z q (cres_of a0)) as M3.
+          destruct (rloop sub fuel df true (S k) t2 z q (cres_of a0)) as [t3 e]. cbn [fst snd] in *. lia.
     - intros [l t] x. unfold lsub. cbn [fst snd layer_exec].
       destruct (ms_poll Hm t (imap l x)) as (r & Hr & Hp).
       destruct (sub t (OPoll (imap l x))) as [t1 a]. cbn [fst snd] in *. exists r. auto.
@@ -1292,34 +1558,35 @@ Section Starve.
       destruct (ms_clone Hm t (imap l x)) as (y & Hy).
       destruct (sub t (OClone (imap l x))) as [t1 a]. cbn [fst snd] in *. subst a. cbn. eexists; reflexivity.
     - intros [l t] x q Hlt. unfold lsub. cbn [fst snd layer_exec] in *.
-      set (y := imap l x). destruct d as [| |k|k|k].
-      + pose proof (ms_mono Hm t (OClone y)) as M. destruct (sub t (OClone y)) as [t1 a] eqn:E. cbn [fst snd] in *.
-        destruct a as [y'|r|c]; cbn [fst snd]; try discriminate.
-        * pose proof (ms_call Hm t1 y q ltac:(lia)) as C. destruct (sub t1 (OCall y q)) as [t2 a0]. cbn [fst snd] in *.
-          destruct a0 as [i|r|[| |]]; cbn; congruence.
-        * destruct (ms_clone Hm t y) as [z Hz]. rewrite E in Hz. discriminate.
-      + pose proof (ms_call Hm t y q Hlt) as C. destruct (sub t (OCall y q)) as [t1 a]. cbn [fst snd] in *.
-        destruct a as [i|r|[| |]]; cbn; congruence.
-      + pose proof (ms_mono Hm t (OClone y)) as M. destruct (sub t (OClone y)) as [t1 a] eqn:E. cbn [fst snd] in *.
-        destruct a as [y'|r|c]; cbn [fst snd]; try discriminate.
-        * pose proof (ms_call Hm t1 y q ltac:(lia)) as C. pose proof (ms_mono Hm t1 (OCall y q)) as M2.
-          destruct (sub t1 (OCall y q)) as [t2 a0]. cbn [fst snd] in *.
-          destruct a0 as [i|r|[| |]]; cbn [cres_of fst snd]; try congruence; try discriminate;
-            pose proof (attempts_no_hang k t2 y q ltac:(lia)) as A;
-            destruct (attempts sub fuel k t2 y q) as [t3 e]; cbn [fst snd] in *; congruence.
-        * destruct (ms_clone Hm t y) as [z Hz]. rewrite E in Hz. discriminate.
-      + pose proof (ms_mono Hm t (OClone y)) as M. destruct (sub t (OClone y)) as [t1 a] eqn:E. cbn [fst snd] in *.
-        destruct a as [y'|r|c]; cbn [fst snd]; try discriminate.
-        * destruct (sub t1 (OCall y q)) as [t2 a0]. cbn [fst snd]. discriminate.
-        * destruct (ms_clone Hm t y) as [z Hz]. rewrite E in Hz. discriminate.
-      + pose proof (ms_call Hm t y q Hlt) as C. pose proof (ms_mono Hm t (OCall y q)) as M.
+      set (y := imap l x).
+      assert (Hcl : forall t0 y0, exists t1 z, sub t0 (OClone y0) = (t1, AId z) /\ pend t1 <= pend t0).
+      { intros t0 y0. destruct (ms_clone Hm t0 y0) as [z Hz]. pose proof (ms_mono Hm t0 (OClone y0)) as M.
+        destruct (sub t0 (OClone y0)) as [t1 a]. cbn [fst snd] in *. subst a. eauto. }
+      destruct d as [| |k df|k|k|k df].
+      + destruct (Hcl t y) as (t1 & y' & E & M). rewrite E.
+        pose proof (cres_of_no_hang t1 y q ltac:(lia)) as C.
+        destruct (sub t1 (OCall y q)) as [t2 a0]. cbn [fst snd] in *. congruence.
+      + pose proof (cres_of_no_hang t y q Hlt) as C.
+        destruct (sub t (OCall y q)) as [t1 a]. cbn [fst snd] in *. congruence.
+      + destruct (Hcl t y) as (t1 & y' & E & M). rewrite E.
+        pose proof (cres_of_no_hang t1 y q ltac:(lia)) as C. pose proof (ms_mono Hm t1 (OCall y q)) as M2.
+        destruct (sub t1 (OCall y q)) as [t2 a0]. cbn [fst snd] in *.
+        pose proof (rloop_no_hang df false k t2 y q (cres_of a0) ltac:(lia) C) as A.
+        destruct (rloop sub fuel df false k t2 y q (cres_of a0)) as [t3 e]. cbn [fst snd] in *. congruence.
+      + destruct (Hcl t y) as (t1 & y' & E & M). rewrite E.
+        destruct (sub t1 (OCall y q)) as [t2 a0].
+        destruct (hedges sub fuel k t2 y' q (is_ok (cres_of a0))) as [t3 ok]. cbn [fst snd].
+        pose proof (hedge_result_no_hang ok). congruence.
+      + destruct (Hcl t y) as (t1 & y' & E & M). rewrite E.
+        destruct (sub t1 (OCall y q)) as [t2 a0].
+        destruct (is_ok (cres_of a0)); cbn [fst snd]; [discriminate|].
+        destruct (hseq sub fuel k t2 y' q) as [t3 ok]. cbn [fst snd].
+        pose proof (hedge_result_no_hang ok). congruence.
+      + pose proof (cres_of_no_hang t y q Hlt) as C. pose proof (ms_mono Hm t (OCall y q)) as M.
         destruct (sub t (OCall y q)) as [t1 a0]. cbn [fst snd] in *.
-        pose proof (ms_mono Hm t1 (OClone y)) as M2. destruct (sub t1 (OClone y)) as [t2 a] eqn:E. cbn [fst snd] in *.
-        destruct a as [z|r|c]; cbn [fst snd]; try discriminate.
-        * destruct a0 as [i|r|[| |]]; cbn [cres_of fst snd]; try congruence; try discriminate;
-            pose proof (attempts_no_hang k t2 z q ltac:(lia)) as A;
-            destruct (attempts sub fuel k t2 z q) as [t3 e]; cbn [fst snd] in *; congruence.
-        * destruct (ms_clone Hm t1 y) as [z Hz]. rewrite E in Hz. discriminate.
+        destruct (Hcl t1 y) as (t2 & z & E & M2). rewrite E.
+        pose proof (rloop_no_hang df true (S k) t2 z q (cres_of a0) ltac:(lia) C) as A.
+        destruct (rloop sub fuel df true (S k) t2 z q (cres_of a0)) as [t3 e]. cbn [fst snd] in *. congruence.
   Qed.
 End Starve.
 
@@ -1357,7 +1624,8 @@ Proof.
   - intros b x. exists (answer b x). split; [reflexivity|]. intros Hr. unfold bpend, answer in *. cbn.
     destruct (pmode b); [apply drop_at_lt; exact Hr|destruct (oracle b); cbn in *; [discriminate|lia]].
   - intros b x. eexists; reflexivity.
-  - intros b x q _. cbn. discriminate.
+  - intros b x q _. cbn. unfold call_result. destruct (Z.testbit _ _); [discriminate|].
+    destruct (Nat.ltb _ _); discriminate.
 Qed.
 
 Definition spend (t : list lstate * base) : nat := bpend (snd t).
@@ -1407,7 +1675,7 @@ Proof.
   destruct (execp fuel ds t1 (OCall 0 q)) as [t2 a]. cbn [fst snd] in *.
   specialize (IH t2 ltac:(lia)). destruct (client cf fuel ds t2 rest) as [t3 out]. cbn [snd] in *.
   intros [H|H]; [|exact (IH H)].
-  destruct a as [i|r|[| |]]; cbn in H; congruence.
+  destruct a as [i|r|[|[| | |]|]]; cbn in H; congruence.
 Qed.
 
 Theorem program_never_hangs cf fuel ds : forall os p,
@@ -1427,7 +1695,7 @@ Proof.
       pose proof (ms_mono _ _ _ Hm t (OCall x (Z.of_nat (S (nreq c))))) as M.
       pose proof (ms_call _ _ _ Hm t x (Z.of_nat (S (nreq c))) Hlt) as C.
       destruct (execp fuel ds t (OCall x (Z.of_nat (S (nreq c))))) as [t1 a]. cbn [fst snd outs] in *.
-      split; [lia|]. intros [H|H]; [|exact (Hno H)]. destruct a as [i|r|[| |]]; cbn in H; congruence.
+      split; [lia|]. intros [H|H]; [|exact (Hno H)]. destruct a as [i|r|[|[| | |]|]]; cbn in H; congruence.
     - destruct (nth_error (hs c) h) as [x|]; [|cbn [fst snd]; split; [lia|exact Hno]].
       pose proof (ms_mono _ _ _ Hm t (OClone x)) as M.
       destruct (execp fuel ds t (OClone x)) as [t1 a]. cbn [fst snd] in *.
@@ -1440,13 +1708,13 @@ Qed.
 
 (* the fuel run_script uses (modes 1 and 3: one more than the number of scripted answers) is
    large enough: no request of any mode-1 / mode-3 script hangs in the model *)
-Corollary run_protocol_never_hangs cf ds orc reqs :
-  ~ In 9%Z (snd (client cf (S (length orc)) ds (init_stack ds (init_base orc)) reqs)).
+Corollary run_protocol_never_hangs cf ds orc kf am reqs :
+  ~ In 9%Z (snd (client cf (S (length orc)) ds (init_stack ds (init_base_f orc kf am)) reqs)).
 Proof. apply client_never_hangs. unfold spend, bpend, init_stack. cbn. lia. Qed.
 
-Corollary run_program_never_hangs cf ds po os :
+Corollary run_program_never_hangs cf ds po kf am os :
   ~ In 9%Z (outs (snd (fst (run_cops (execp (S (length (concat po))) ds) cf
-                                    (init_stack ds (init_base_p po), init_c) os)))).
+                                    (init_stack ds (init_base_pf po kf am), init_c) os)))).
 Proof. apply program_never_hangs; [unfold spend, bpend, init_stack; cbn; lia|cbn; tauto]. Qed.
 
 (* ------------------------------------------------------------------------- *)
@@ -1490,12 +1758,16 @@ End Passes.
 (* ------------------------------------------------------------------------- *)
 (* (C) listeners only observe. [run_steps] COMPUTES the outcome of a call path through the
    listener invocations: a panic that escapes an invocation ends the run with FPanic. *)
-Lemma emit_g_guarded ls ev :
-  emit_g true ls ev = (map (fun l => l ev) ls, false).
+Lemma emit_g_contained g ls ev :
+  (forall l, In l ls -> contained g (l ev) = true) ->
+  emit_g g ls ev = (map (fun l => l ev) ls, false).
 Proof.
-  induction ls as [|l rest IH]; cbn [emit_g map]; [reflexivity|].
-  rewrite IH. destruct (l ev); reflexivity.
+  induction ls as [|l rest IH]; intros H; cbn [emit_g map]; [reflexivity|].
+  rewrite (H l (or_introl eq_refl)). rewrite IH by (intros l' Hl; apply H; right; exact Hl). reflexivity.
 Qed.
+
+Lemma contained_catch_drop r : contained GCatchDrop r = true.
+Proof. destruct r; reflexivity. Qed.
 
 (* what the listeners are handed, event by event *)
 Fixpoint deliveries_of (ls : list listener) (steps : list lstep) : list (Z * list lresult) :=
@@ -1513,30 +1785,42 @@ Fixpoint final_of (steps : list lstep) (cur : final) : final :=
   | SEmit _ :: rest => final_of rest cur
   end.
 
-Lemma run_steps_guarded ls : forall steps cur acc,
-  run_steps true ls steps cur acc = (final_of steps cur, rev acc ++ deliveries_of ls steps).
+(* a guard contains the listeners [ls]: nothing they do escapes it *)
+Definition contains (g : guard) (ls : list listener) : Prop :=
+  forall l ev, In l ls -> contained g (l ev) = true.
+
+Lemma run_steps_contained g ls : contains g ls -> forall steps cur acc,
+  run_steps g ls steps cur acc = (final_of steps cur, rev acc ++ deliveries_of ls steps).
 Proof.
-  induction steps as [|s rest IH]; intros cur acc; cbn [run_steps final_of deliveries_of].
+  intros Hg. induction steps as [|s rest IH]; intros cur acc; cbn [run_steps final_of deliveries_of].
   - rewrite app_nil_r. reflexivity.
   - destruct s as [ev|k p].
-    + rewrite emit_g_guarded. rewrite IH. cbn [rev]. rewrite <- app_assoc. reflexivity.
+    + rewrite emit_g_contained by (intros l Hl; apply Hg; exact Hl).
+      rewrite IH. cbn [rev]. rewrite <- app_assoc. reflexivity.
     + apply IH.
 Qed.
 
-(* whatever the listeners do -- return, panic, any subset of them, any number of them -- the
-   outcome of a call whose listener invocations go through EventListeners::emit is the outcome
-   the call path fixes by itself *)
+Lemma catch_drop_contains ls : contains GCatchDrop ls.
+Proof. intros l ev _. apply contained_catch_drop. Qed.
+
+Lemma run_steps_guarded ls : forall steps cur acc,
+  run_steps GCatchDrop ls steps cur acc = (final_of steps cur, rev acc ++ deliveries_of ls steps).
+Proof. apply run_steps_contained, catch_drop_contains. Qed.
+
+(* whatever the listeners do -- return, panic, panic with a payload whose destructor panics, any
+   subset of them, any number of them -- the outcome of a call whose listener invocations go through
+   EventListeners::emit (as repaired by afefac0) is the outcome the call path fixes by itself *)
 Theorem listeners_cannot_change_outcome ls steps cur :
-  fst (run_steps true ls steps cur []) = final_of steps cur.
+  fst (run_steps GCatchDrop ls steps cur []) = final_of steps cur.
 Proof. rewrite run_steps_guarded. reflexivity. Qed.
 
 Corollary outcome_independent_of_listeners ls1 ls2 steps cur :
-  fst (run_steps true ls1 steps cur []) = fst (run_steps true ls2 steps cur []).
+  fst (run_steps GCatchDrop ls1 steps cur []) = fst (run_steps GCatchDrop ls2 steps cur []).
 Proof. rewrite !listeners_cannot_change_outcome. reflexivity. Qed.
 
 (* ... and every listener is handed every event, whatever the others did with it *)
 Theorem every_listener_gets_every_event ls steps cur :
-  snd (run_steps true ls steps cur []) = deliveries_of ls steps /\
+  snd (run_steps GCatchDrop ls steps cur []) = deliveries_of ls steps /\
   (forall ev, In (SEmit ev) steps -> In (ev, map (fun l => l ev) ls) (deliveries_of ls steps)) /\
   (forall ev i l, nth_error ls i = Some l -> nth_error (map (fun l => l ev) ls) i = Some (l ev)).
 Proof.
@@ -1557,13 +1841,13 @@ Fixpoint emits (ev : Z) (steps : list lstep) : nat :=
 (* per kind, in absolute numbers: a registered listener is invoked exactly once per emitted event *)
 Theorem per_kind_counts ls steps cur i l ev :
   nth_error ls i = Some l -> (forall e, l e <> Skipped) ->
-  count_kind i ev (snd (run_steps true ls steps cur [])) = Z.of_nat (emits ev steps).
+  count_kind i ev (snd (run_steps GCatchDrop ls steps cur [])) = Z.of_nat (emits ev steps).
 Proof.
   intros Hi Hl. rewrite run_steps_guarded. cbn [snd rev app]. unfold count_kind. f_equal.
   induction steps as [|s rest IH]; [reflexivity|].
   destruct s as [e|k p]; cbn [deliveries_of emits filter fst snd]; [|exact IH].
   rewrite (map_nth_error (fun l0 => l0 e) i ls Hi).
-  assert (Hinv : invoked (Some (l e)) = true) by (specialize (Hl e); destruct (l e); [reflexivity|reflexivity|congruence]).
+  assert (Hinv : invoked (Some (l e)) = true) by (specialize (Hl e); destruct (l e); try reflexivity; congruence).
   rewrite Hinv, andb_true_r. destruct (Z.eqb e ev); cbn [length]; rewrite IH; reflexivity.
 Qed.
 
@@ -1574,8 +1858,20 @@ Qed.
 Theorem bare_callbacks_refuted :
   let ls := [(fun _ => Panics); (fun _ => Returns)] in
   let steps := [SOut 0 70; SEmit 0] in
-  fst (run_steps false ls steps (FOut 0 0) []) = FPanic /\
+  fst (run_steps GBare ls steps (FOut 0 0) []) = FPanic /\
   final_of steps (FOut 0 0) = FOut 0 70 /\
-  count_kind 1 0 (snd (run_steps false ls steps (FOut 0 0) [])) = 0%Z /\
-  count_kind 1 0 (snd (run_steps true ls steps (FOut 0 0) [])) = 1%Z.
+  count_kind 1 0 (snd (run_steps GBare ls steps (FOut 0 0) [])) = 0%Z /\
+  count_kind 1 0 (snd (run_steps GCatchDrop ls steps (FOut 0 0) [])) = 1%Z.
+Proof. cbn. repeat split; reflexivity. Qed.
+
+(* ... and for invocations that catch the panic but drop its payload outside the guard
+   (EventListeners::emit before fix afefac0; reconnect's callback sites still): an ordinary panic is
+   contained, a payload whose destructor panics is not *)
+Theorem payload_dropped_outside_refuted :
+  let steps := [SEmit 0; SOut 0 70] in
+  fst (run_steps GCatch [(fun _ => Panics); (fun _ => Returns)] steps (FOut 0 0) []) = FOut 0 70 /\
+  fst (run_steps GCatch [(fun _ => Bombs); (fun _ => Returns)] steps (FOut 0 0) []) = FPanic /\
+  count_kind 1 0 (snd (run_steps GCatch [(fun _ => Bombs); (fun _ => Returns)] steps (FOut 0 0) [])) = 0%Z /\
+  fst (run_steps GCatchDrop [(fun _ => Bombs); (fun _ => Returns)] steps (FOut 0 0) []) = FOut 0 70 /\
+  count_kind 1 0 (snd (run_steps GCatchDrop [(fun _ => Bombs); (fun _ => Returns)] steps (FOut 0 0) [])) = 1%Z.
 Proof. cbn. repeat split; reflexivity. Qed.
